@@ -12,2441 +12,889 @@ Definition show_fres (r : fres) : string :=
   end.
 Definition check (rs : list rune) : string := digest (show_fres (format_res rs)).
 Definition full (rs : list rune) : string := show_fres (format_res rs).
-Eval vm_compute in ("<<<M4106>>>" ++ check (runes_of_ascii "packet
-metadata{
-	zchar[
-
-    10]
-
-    i64_
-    `say ""hi""`
-
-    ,	repeat	// " ++ [27880; 37322]%N ++ runes_of_ascii "
-	Header
-	// a // b
-	  // " ++ [128512]%N ++ runes_of_ascii " emoji
-  uint8x	, @lengthOf(
-falsey )int8 _x
-@calculatedFrom(""x y""
-	)
-
-    `{ , }` // c
-    , 
-stringy
-    metadata 
-`a\` // " ++ [128512]%N ++ runes_of_ascii " emoji
-  , // " ++ [128512]%N ++ runes_of_ascii " emoji
-	@lengthOf( 
-Packet
-
-    ) i64_	{ 
-match
-
-crc
-
-    as Header {
-	[
-0
-	, 0123456789 
-]
-: 	 // c
-    Foo ,
-
-""abc"" 
-// trailing space 
-  // @lengthOf(
-    :pack
-, }
-
-, match
-
-    int
-as
-
-charz{
-
-    1
-	    /// triple
-
-:packetx ,
-	7
-
-:  MetaDataX 
-,// " ++ [128512]%N ++ runes_of_ascii " emoji
-    7: a1 007:zchar , 
-""CRC32"": 
-stringy
-	,
-
-[
-	""\" ++ [233]%N ++ runes_of_ascii """
-, 
-""CRC32""
-]
-
-    :
-	i8i8} 
-//
-  	//x
-	,pack 
-    /// triple
-	`doc`
-    ,tag { 
-_x
-@calculatedFrom(
-    ""CRC32""
-) 
-`
-` ,
-    repeat	asx
-`{ , }` 	 /// triple
-  , 
-i32 
-_x  //x
-    	@calculatedFrom(
-	""\n""
-
-    ) `u8 x,`
-    ,	}
-, }	,
-f32a
-@lengthOf(
-    chars  // trailing space 
-  )
-    ,
-    string Packet
-,
-@leftPad
-
-(
-' ')@lengthOf(  u8x) 	 // trailing space 
-a1// " ++ [128512]%N ++ runes_of_ascii " emoji
-    @calculatedFrom(
-""x y"")
-`doc`
-    ,options1 ,  body 
-`{ , }`
-
-,
-}
-MetaData
-Foo
-    {uint8
-
-    Z9_	`{ , }`, }  packet
-Header
-    { pack
-{  // trailing space 
-  leftPad {
-	u128 
-i64_
-
-    , zchar[
-	7 
-// @lengthOf(
-    // `tick` ""quote"" 'q'
-  ]
-i64_
-
-@calculatedFrom(
-
-""packet"" ) 	 // packet A { u8 x, }
-
-	`line1
-line2` //x
-
-,	//
-	  metadata
-Logon  ,  char[
-10 // packet A { u8 x, }
-	] asx@lengthOf( 
-uint8x  )
-
-`it's` 
-,  } /// triple
-
-	, }	, @calculatedFrom(
-""a\\"" )Logon
-
-    @lengthOf(  uint8x )  `
-`
-,
-	int64
-	msg_type,
-    metadata
-
-_x 
-// @lengthOf(
-  /// triple
-  , @leftPad
-    (
-)  trueish {
-	Header {
-        //x
-	// `tick` ""quote"" 'q'
-uint8x 
-{ char[	0123456789  ]
-	leftPad
-@calculatedFrom(
-
-""" ++ [233]%N ++ runes_of_ascii "t" ++ [233]%N ++ runes_of_ascii """ )`" ++ [28040; 24687; 31867; 22411]%N ++ runes_of_ascii "`
-
-,
-    }
-, // " ++ [128512]%N ++ runes_of_ascii " emoji
-      char[ 	 // a // b
-  1] 
+Eval vm_compute in ("<<<M1941>>>" ++ check (runes_of_ascii "options {
+    lengthOf = ""CRC32"";
+    stringy = uint16;
+    u8x = float32;
+    x_y_z = zchar[007]
+    repeatCount = ""a\""b"";
     // c
-	// packet A { u8 x, }
-	asx@calculatedFrom(
-
-    ""it's"")	,roots , 
-}
-	, 
-}
-	,	zchar[
-	// " ++ [128512]%N ++ runes_of_ascii " emoji
-      255]
-    Packet 
-, 	 // `tick` ""quote"" 'q'
-	repeat
-
-    i8i8
-, repeat
-	float64 u8x,
-    @calculatedFrom(""" ++ [233]%N ++ runes_of_ascii "t" ++ [233]%N ++ runes_of_ascii """
-    ) asx  @calculatedFrom(""a\""b"")
-, 
-}
-MetaData 
-  /// triple
-    roots  // packet A { u8 x, }
-	{ } ")).
-Eval vm_compute in ("<<<M1>>>" ++ check (runes_of_ascii "
-packet
-body { chars //x
-`two words` , match crc as	metadata {65535
-    :
-    // c
-    trueish ""\" ++ [233]%N ++ runes_of_ascii """ : charz , ""abc""	: MetaDataX [""packet"" , ""// no comment"",0
-, 00
-,
-    ""// no comment"" ,""{,}"" , 00 ]:  i64_
-// @lengthOf(
-//	t
-, """ ++ [233]%N ++ runes_of_ascii "t" ++ [233]%N ++ runes_of_ascii """ :f32a
-, [
-    """ ++ [128512]%N ++ runes_of_ascii """  , ""it's""
-]
-: Foo
-}
-    ,@rightPad
-(  ' '
-    /// triple
-    ) repeat char[ 1]
-    body `it's`
-,
-@tag( 007) @calculatedFrom(
-    """ ++ [233]%N ++ runes_of_ascii "t" ++ [233]%N ++ runes_of_ascii """ )
-// @lengthOf(
-//
-@calculatedFrom( ""a\""b""// trailing space 
-)
-repeat
-i64_
-{ roots /// triple
-{ i16 // packet A { u8 x, }
-Header`two words`, repeatCount `{ , }`,  f64
-x @calculatedFrom( ""a	b"")
-    // a // b
-    ,repeatCount @calculatedFrom(// " ++ [27880; 37322]%N ++ runes_of_ascii "
-"""" ) ,} ,repeat u8
-BodyLength
-    `crlf
-line`	,
-    // `tick` ""quote"" 'q'
-    char As
-@lengthOf(
-    Foo) , } ,	char[] roots
-    `line1
-line2`,//
-int a1, string_{ char[]Logon `line1
-line2` , repeat float32 trueish
-    ,
-},
-@leftPad ( '0' ) repeat metadata  {	rootA@lengthOf( // trailing space 
-falsey	) ``
-    ,
-// " ++ [128512]%N ++ runes_of_ascii " emoji
-// packet A { u8 x, }
-} ,
-} packet float
-{u16
-// trailing space 
-// trailing space 
-Logon // a // b
-`tab	here`// @lengthOf(
-,
-// @lengthOf(
-// c
-u128 {zchar[255
-// packet A { u8 x, }
-//
-]	charz`doc` , }
-,
-@tag(0 )	repeat Foo { i32 body
-    @calculatedFrom( ""`tick`"" )
-`" ++ [233]%N ++ runes_of_ascii "` ,} /// triple
-,char[] o @calculatedFrom(""1"" ) `line1
-line2` ,
-@lengthOf(
-// a // b
-//x
-zchar) i16 BodyLength
-    @lengthOf(
-    // " ++ [27880; 37322]%N ++ runes_of_ascii "
-    BodyLength )
-    , @lengthOf( T) @rightPad(
-' ' )@lengthOf( T
-)
-repeat
-u64 _x// " ++ [27880; 37322]%N ++ runes_of_ascii "
-, match MetaDataX as // trailing space 
-options1// trailing space 
-{ //x
-0123456789 :
-    options1  , } , repeat u8 charz
-, repeat i8i8 {// c
-a1 ,len  { repeat string
-o	,
-    // a // b
-    } ,	match zchar
-as Logon {"""" : matchKey """ ++ [128512]%N ++ runes_of_ascii """	: u 007 :
-repeatCount ,}  , // c
-}
-    ,
-}
-")).
-Eval vm_compute in ("<<<M1098>>>" ++ check (runes_of_ascii "
-packet
-    uint8x { }  MetaData
-    trueish { }root packet  tag
-{
-@calculatedFrom(	""x y"") @tag( 255 ) @calculatedFrom( ""a	b"" ) string_ Packet, repeat
-u8 roots
-    `" ++ [28040; 24687; 31867; 22411]%N ++ runes_of_ascii "`,
-roots @calculatedFrom(""it's"" ) ,
-rootA{ Foo	@calculatedFrom( ""x y"" ) `{ , }`, } , //
-match MetaDataX
-    as x_y_z  { 3  : trueish
-    // a // b
-    0
-:
-zchar , /// triple
-""" ++ [233]%N ++ runes_of_ascii "t" ++ [233]%N ++ runes_of_ascii """:crc} ,
-    roots { repeat zchar[10	] A , },
-    @leftPad (
-    '\x00'	) repeat string
-    //x
-    lengthOf ,	@tag(  0 ) u128 ,} packet body {
-    len
-    // " ++ [27880; 37322]%N ++ runes_of_ascii "
-    `crlf
-line` , @lengthOf(
-    Pad )
-    @calculatedFrom( ""\" ++ [233]%N ++ runes_of_ascii """) @leftPad //	t
-(	' ' )
-repeat float
-{  zchar[
-    // `tick` ""quote"" 'q'
-    1 ]options1 , int32
-// " ++ [128512]%N ++ runes_of_ascii " emoji
-// trailing space 
-metadata @lengthOf( f32a ) , } , match Packet as _x
-    {  255 : Header,	007 : packetx
-, [ 42
-,255
-]//	t
-: msg_type // " ++ [128512]%N ++ runes_of_ascii " emoji
-00  :lengthOf [ 3 , 65535
-    ] // c
-: string_ , ""abc"":uint8x, }, repeat x_y_z {  Foo // " ++ [27880; 37322]%N ++ runes_of_ascii "
-{ repeat
-A
-    calculatedFrom, Z9_
-    @calculatedFrom( ""it's"" ) `{ , }` ,
-    repeat u repeatCount
-, repeat u16 u8x `// not a comment` , } ,
-u32  lengthOf `
-` ,int8 rootA//
-,
-    repeat a1 { match
     //	t
-    options1 as repeatCount{[	255 , 007 ]
-: packetx  , } ,	As { repeatCount
-u	, zchar[
-255 ] BodyLength`{ , }` ,} ,}	, } ,
-    char[4294967296
-    ]	A `" ++ [233]%N ++ runes_of_ascii "` , u8 int
-, repeat
-    Packet  { x
-    calculatedFrom `" ++ [233]%N ++ runes_of_ascii "` ,
-} , A
-    // packet A { u8 x, }
-    , Foo @lengthOf(
-matchKey )	`" ++ [233]%N ++ runes_of_ascii "`  ,
-// `tick` ""quote"" 'q'
-// a // b
-uint32
-    options1,
-    } packet calculatedFrom
-{}
-")).
-Eval vm_compute in ("<<<M4426>>>" ++ check (runes_of_ascii "packet 
-Packet
-{  @leftPad
-    // a // b
-  // a // b
-    (	' '
-
-    )
-repeat
-
-    As { repeatCount
-@calculatedFrom(""" ++ [28040; 24687]%N ++ runes_of_ascii """
-
-    )
-	,
-repeat  pack
-    {  /// triple
-x{	match
-As  as 
-uint8x
-
-{
-	[
-""1""	,
-""\" ++ [233]%N ++ runes_of_ascii """
-	,  00
-	, 
-""it's"" ,
-""a\""b""
-
-,
-""\" ++ [233]%N ++ runes_of_ascii """
-]
-
-: 
-        // " ++ [128512]%N ++ runes_of_ascii " emoji
-// packet A { u8 x, }
-pack [ ""a\""b"", """ ++ [233]%N ++ runes_of_ascii "t" ++ [233]%N ++ runes_of_ascii """
-    ,	65535
-    , 
-""a	b"", ""`tick`""	, 
-      //	t
-  //x
-  ""\n"" 
-	// " ++ [128512]%N ++ runes_of_ascii " emoji
-	// packet A { u8 x, }
-      ]:As
-    ,
-0123456789 :	float ,	/// triple
-    ""a	b""
-: x_y_z,[ 
-""abc""
-]:
-
-    stringy // trailing space 
-  }	,
-    f64
-	MetaDataX, zchar[	0123456789
-    ] 
-charz,  }
-,crc 	 // trailing space 
-      {char[]
-
-x_y_z  // c
-`
-`
-,
-	match
-Z9_ 
-as i8i8  { 
-00:  
-      // c
-    //	t
-charz ,
-	} 
-, }
-
-    ,i8  // a // b
-
-	_x ,  repeat  falsey
-
-{
-    // `tick` ""quote"" 'q'
-    	char[
-    65535 	 // a // b
-	  ]Packet
-
-@calculatedFrom(  ""x y"" )
-
-    `line1
-line2` ,  }	,
-    } ,
-	f32a// packet A { u8 x, }
-    	MetaDataX
-
-    `" ++ [233]%N ++ runes_of_ascii "` ,repeat //	t
-    	matchKey	{int32
-int `crlf
-line` ,	} 
-,
-	}
-	,  float{
-
-string
-    As`// not a comment`  , As,
-    stringy 
-,
-
-}
-	, @tag( 
-00
-)
-    Foo 
-,
-    repeat
-int16 Z9_, @lengthOf( 
-u8x )
-	u8x
-
-    { repeat
-
-uint64
-    asx , 
-    // packet A { u8 x, }
-
-  //
-	repeat  int 
-// packet A { u8 x, }
-    ``
-	,	char[
-
-1
-]uint8x @calculatedFrom(
-
-    ""\" ++ [233]%N ++ runes_of_ascii """
-    )
-,
-    }  , 
-x
-    ,
-
-} ")).
-Eval vm_compute in ("<<<M568>>>" ++ check (runes_of_ascii "
-options {a1= 4294967296 ;
-    //	t
-    u =	"""" BodyLength =0123456789 ;
-}
-    packet float{
-    char[ 10// trailing space 
-]
-    calculatedFrom `say ""hi""`
-,}	packet  charz
-    { u
-{
-    match string_
-    as crc {
-0 : zchar//x
-4294967296:// packet A { u8 x, }
-u 255 : falsey }
-    ,len@lengthOf(
-// a // b
-// c
-asx )`tab	here`
-    ,o @calculatedFrom( ""\n"" ), },// " ++ [128512]%N ++ runes_of_ascii " emoji
-} options
-{  T = false ;}  packet
-calculatedFrom {
-    match u8x
-as leftPad { """ ++ [233]%N ++ runes_of_ascii "t" ++ [233]%N ++ runes_of_ascii """ //x
-:packetx , ""\n"" :lengthOf ,
-007 :
-    pack 007 :
-BodyLength
-,
-    ""a\\""  :
-charz}
-, @tag(
-    7 // trailing space 
-)body { repeat char[
-7 ]// packet A { u8 x, }
-_x`" ++ [28040; 24687; 31867; 22411]%N ++ runes_of_ascii "` , } ,	@tag(// " ++ [128512]%N ++ runes_of_ascii " emoji
-42 )string  tag `crlf
-line`	,  @tag( // " ++ [27880; 37322]%N ++ runes_of_ascii "
-00 )repeat char[	0  ] calculatedFrom `tab	here`, u16 Z9_ @calculatedFrom( ""{,}"" ) ,
-//x
-//x
-@calculatedFrom(
-    ""\" ++ [233]%N ++ runes_of_ascii """ )
-    match	Logon
-    // @lengthOf(
-    as Z9_ {
-[
-""1""
-    //	t
-    , // c
-""1""	] :
-    options1 } ,
-T
-    metadata ,_x {
-    // @lengthOf(
-    f32 x
-    , int64
-a1
-//x
-// " ++ [27880; 37322]%N ++ runes_of_ascii "
-@lengthOf(_x
-    )`u8 x,` , uint8x { _x	@lengthOf(
-charz ) // `tick` ""quote"" 'q'
-, int64// @lengthOf(
-trueish
-    ,  char[0	]
-// `tick` ""quote"" 'q'
-// c
-roots @calculatedFrom( ""// no comment"")
-    `crlf
-line` , u ,}
-    , } , }
-")).
-Eval vm_compute in ("<<<M3614>>>" ++ check (runes_of_ascii "packet Frame
-    // c1
-{ // c2a
-  // c2b
-u8
-    // c3
-HK
-    // c4
-, // c5a
-  // c5b
-u8 BK
-    // c7
-, u8 TK
-    // c10
-, // c11a
-  // c11b
-match // c12
-HK // c13
-as // c14
-Hdr // c15a
-  // c15b
-{
-    // c16
-1 // c17
-: HdrA , // c20a
-  // c20b
-2
-    // c21
-: // c22
-HdrB // c23a
-  // c23b
-, } // c25
-,
-    // c26
-match
-    // c27
-BK // c28a
-  // c28b
-as Body // c30a
-  // c30b
-{
-    // c31
-1 // c32a
-  // c32b
-:
-    // c33
-BodyA // c34a
-  // c34b
-, // c35
-2 : // c37a
-  // c37b
-BodyB
-    // c38
-,
-    // c39
-} , // c41
-match
-    // c42
-TK
-    // c43
-as
-    // c44
-Trl {
-    // c46
-1 : TrlA // c49
-, } // c51a
-  // c51b
-, // c52
-} // c53
-packet HdrA // c55
-{ u8
-    // c57
-a ,
-    // c59
-} packet
-    // c61
-HdrB // c62
-{ u16
-    // c64
-b // c65a
-  // c65b
-, } // c67a
-  // c67b
-packet // c68
-BodyA // c69a
-  // c69b
-{
-    // c70
-u32 c
-    // c72
-,
-    // c73
-}
-    // c74
-packet
-    // c75
-BodyB // c76
-{
-    // c77
-u64 d
-    // c79
-, // c80
-}
-    // c81
-packet
-    // c82
-TrlA // c83a
-  // c83b
-{ u8 e
-    // c86
-, } root // c89a
-  // c89b
-packet
-    // c90
-Msg // c91a
-  // c91b
-{ Frame , u8 // c95a
-  // c95b
-x // c96a
-  // c96b
-, } // c98
-")).
-Eval vm_compute in ("<<<M719>>>" ++ check (runes_of_ascii "packet x
-{ @tag(
-//x
-// a // b
-3
-    )@calculatedFrom( // `tick` ""quote"" 'q'
-""1"") @calculatedFrom( // packet A { u8 x, }
-""{,}"" )
-    o	uint8x , repeat
-    zchar[
-    4294967296
-    // " ++ [128512]%N ++ runes_of_ascii " emoji
-    ] Packet ,
-repeat trueish	{uint16
-a1  ,
-    char[]
-matchKey ,
-    float { uint64 A	@calculatedFrom(""`tick`""
-// c
-//x
-)
-    ,
-} ,
-int32
-tag , }
-    , @leftPad
-    ( ) Foo{leftPad @calculatedFrom( ""{,}"" ) , //x
-} , @lengthOf( Z9_ )uint64 pack ,
-    }	options {roots
-=65535 ;  falsey =
-10 ; //x
-x_y_z =
-    ' ' ;
-    MetaDataX =// `tick` ""quote"" 'q'
-false
-    ; }options { crc
-    =true ;string_
-    = false;leftPad = ' ' ;i8i8 =
-    // c
-    '0' ; }root packet
-    string_ { u16
-    // trailing space 
-    rootA
-    @lengthOf( lengthOf ) `" ++ [233]%N ++ runes_of_ascii "`  ,@lengthOf( chars) @lengthOf( stringy)	@lengthOf( falsey	)
-string
-    Header @calculatedFrom( ""1"" ) ,
-@calculatedFrom( ""a\""b"")
-@calculatedFrom(
-    ""`tick`"" ) @tag(  65535 )
-    uint8
-//
-// " ++ [27880; 37322]%N ++ runes_of_ascii "
-f32a , @leftPad () zchar[42 // trailing space 
-] a1 @calculatedFrom(""""// " ++ [128512]%N ++ runes_of_ascii " emoji
-)
-,
-// a // b
-// a // b
-} options{ len  =  7 ; }
-")).
-Eval vm_compute in ("<<<M3745>>>" ++ check (runes_of_ascii "options { 
-Foo = 
-      // trailing space 
-	""\" ++ [233]%N ++ runes_of_ascii """roots
-=	""`tick`"" 
-
-// trailing space 
-//	t
-;
-
-crc=
-""packet"" 
-;	falsey
-
-= 	 // a // b
-1  float	= u32  ;
-}
-packet options1{
-match Header
-    as Packet {	[
-    ""abc""	]	:	Header
-	,""`tick`""  :
-
-i64_ 
-,
-    [
-	7	, 
-    /// triple
-
-//x
-      """"
-,
-3
-
-]  :
-	Z9_
-
-    , [""// no comment"" 
-, ""x y"" 
-,
-
-""" ++ [28040; 24687]%N ++ runes_of_ascii """ ,
-
-    1
-    ,
-	""a	b"" ]
-
-    :  x_y_z
-
-    ,""a\""b""
-	:
-float 	 // c
-	}  ,	// @lengthOf(
-	i8i8  _x	, @rightPad( '\x00'
-) 
-zchar[ 0
-
-]
-
-    string_
-    ,  }packet
-	u8x
-{
-    @lengthOf( packetx ) 
-char[ 
-42 ]
-    // `tick` ""quote"" 'q'
-	_x
-,  f64 
-matchKey
-
-`it's`
-,
-	match
-
-    repeatCount 
-as
-
-roots  {
-    // packet A { u8 x, }
-	// " ++ [27880; 37322]%N ++ runes_of_ascii "
-    	[  ""CRC32""	,	""" ++ [128512]%N ++ runes_of_ascii """
-]	: 
-i8i8
-	,}
-,  
-      // " ++ [27880; 37322]%N ++ runes_of_ascii "
-	@lengthOf(
-	len)
-@rightPad
-(' '
-
-    )
-u  stringy
-`say ""hi""` , 	 // @lengthOf(
-
-  repeat 
-char[7 ] 
-pack
-`" ++ [28040; 24687; 31867; 22411]%N ++ runes_of_ascii "`
-,
-    @tag(42	)
-
-    string
-    u8x  `// not a comment`,	}	root packet	As
-    {
-int32 x @calculatedFrom(
-    ""\n"" )
-,
-
-    }
-")).
-Eval vm_compute in ("<<<M154>>>" ++ check (runes_of_ascii "options { } packet
-    //	t
-    falsey /// triple
-{	i64 calculatedFrom
-    @calculatedFrom(
-    //
-    ""a\\"" )
-`it's` ,
-char[ 00 ] falsey ,	@calculatedFrom(""1"" ) @calculatedFrom( ""{,}""
-    )
-i32	float	,@tag(3 //
-)
-    @calculatedFrom(  ""CRC32"" ) int64 options1 @lengthOf(roots ) `two words` , @calculatedFrom(""a\\""	) repeat trueish { repeat charz
-,trueish // trailing space 
-tag //x
-`two words` ,
-repeat u64 Logon  `" ++ [28040; 24687; 31867; 22411]%N ++ runes_of_ascii "`,},
-    @leftPad(
-    //x
-    '0'
-)// " ++ [128512]%N ++ runes_of_ascii " emoji
-@rightPad (
-// " ++ [128512]%N ++ runes_of_ascii " emoji
-//
-' ' )
-//	t
-//
-u roots,repeat
-A	{i32 int
-@lengthOf( zchar
-)`" ++ [233]%N ++ runes_of_ascii "`
-    ,
-    }//	t
-, u64 A , @tag( 10 ) char[]
-u8x, zchar[
-10 ] pack
-//
-// " ++ [27880; 37322]%N ++ runes_of_ascii "
-@calculatedFrom(""1"" ) `say ""hi""` ,	} packet Z9_//	t
-{// " ++ [27880; 37322]%N ++ runes_of_ascii "
-@leftPad( '0')  repeat
-// a // b
-// @lengthOf(
-As charz
-, body @calculatedFrom( ""it's""
-    )`crlf
-line` ,
-    // " ++ [27880; 37322]%N ++ runes_of_ascii "
-    @leftPad ('0'
-) zchar[ 4294967296 ]
-A @calculatedFrom(""packet""
-    // trailing space 
-    ) `" ++ [233]%N ++ runes_of_ascii "`  , repeat body
-    Header`" ++ [233]%N ++ runes_of_ascii "`,}
-")).
-Eval vm_compute in ("<<<M4493>>>" ++ check (runes_of_ascii "options {
-    LittleEndian = false;
-    FixedStringPadFromLeft = false;
-    FixedStringPadChar = ' ';
 }
 
-packet Fill {
-    uint16 Qty,
-    uint64 clOrdID,
-    repeat i64 Flags,
+MetaData trueish {
+    As roots `" ++ [28040; 24687; 31867; 22411]%N ++ runes_of_ascii "`,
+    char[00] Packet,
 }
 
-packet Ack {
-    zchar[7] clOrdID,
-    u64 lastPx,
-    char[] Note,
-    repeat Fill,
-    int32 count,
-}
-
-packet Quote {
-    u8 venue,
-    InRef40 {
-        char[] Qty,
+root packet roots {
+    int8 Logon,
+    body @lengthOf(lengthOf) `
+        `,
+    @rightPad('0')
+    Packet @calculatedFrom(""x y"") `a\`,
+    @lengthOf(T)
+    match matchKey as _x {
+        """ ++ [128512]%N ++ runes_of_ascii """ : stringy,
+        4294967296 : x_y_z,
+        ""\n"" : leftPad,
+        [42, 42, ""it's"", ""\n"", ""// no comment""] : asx,
     },
-    zchar[5] Flags,
-    @rightPad('\x00')
-    char[12] msgKind,
-}
-
-packet Logout {
-    InSym79 {
-        int32 Qty,
-        Fill,
-        char[3] x,
-        repeat InNote29 {
-            i16 price,
-            Ack,
-            f64 x,
-            zchar[8] count,
+    char[10] BodyLength,
+    @leftPad('0')
+    char[] Z9_ `crlf
+        line`,
+    string falsey,
+    int16 asx @calculatedFrom(""x y""),
+    u128 Z9_ `it's`,
+    @rightPad('0')
+    Packet {
+        // " ++ [128512]%N ++ runes_of_ascii " emoji
+        int64 float,
+        repeat leftPad {
+            repeat Z9_ {
+                match T as lengthOf {
+                    ""`tick`"" : msg_type,
+                    ""1"" : x_y_z,
+                    0 : chars,
+                },
+            },
+            repeat trueish {
+                zchar[255] crc `doc`,
+                char Logon @lengthOf(_x),
+                //
+                a1 `doc`,
+                //x
+                //	t
+            },
+            match msg_type as zchar {
+                ""it's"" : body,
+                """ ++ [28040; 24687]%N ++ runes_of_ascii """ : u,
+            },
         },
     },
-}
-
-root packet Logon {
-    zchar[1] sym,
-    u32 count,
-    u16 tag7 @lengthOf(Body),
-    match count as Body {
-        [122, 152] : Ack,
-        118 : Logout,
-        61 : Quote,
-        161 : Fill,
-    },
-    u32 Acct @calculatedFrom(""CR\
-    C32""),
-}")).
-Eval vm_compute in ("<<<M4126>>>" ++ check (runes_of_ascii "root packet u128
-
-    { 
-@calculatedFrom( ""// no comment"")
-    @tag(
-	10 	 //	t
-)
-
-@calculatedFrom(
-
-""packet""
-	)  BodyLength``	,
-char 
-BodyLength`two words` 
-, repeat
-	uint32 
-f32a 	 // trailing space 
-  ,crc
-	{ 
-repeat
-repeatCount
-Packet,
-	MetaDataX @lengthOf( 
-chars	)  ,
-
-options1
-    _x, 
-repeat  float64
-    T//x
-    ,
-} , 
-@tag(  3 )  @leftPad
-	(
-
-'\x00'
-
-    )@rightPad
-( 
-    // @lengthOf(
-  /// triple
-    )
-    match  string_ as
-
-MetaDataX 
-{
-    ""packet"": float
-
-,[ ""abc""// @lengthOf(
-  ,  """" 
-      // packet A { u8 x, }
-,
-3,
-	    //x
-    65535
-    ,	""a	b""
-,//	t
-	42, 1 ,
-""packet""]: 
-i64_
-        // `tick` ""quote"" 'q'
-		/// triple
-	,
-    // " ++ [27880; 37322]%N ++ runes_of_ascii "
-
-  // trailing space 
-7	:
-
-lengthOf
-0
-:
-len 
-
-// trailing space 
-      // packet A { u8 x, }
-  	, 
-10
-:
-
-    len	,
-    [ 	 //	t
-    0
-
-    ] :A 
-//	t
-, }
-, } ")).
-Eval vm_compute in ("<<<M977>>>" ++ check (runes_of_ascii "packet
-MetaDataX {zchar[4294967296
-] o @calculatedFrom(
-""" ++ [233]%N ++ runes_of_ascii "t" ++ [233]%N ++ runes_of_ascii """
-// packet A { u8 x, }
-// `tick` ""quote"" 'q'
-) , @tag( 65535 ) @leftPad /// triple
-(' ' )uint16 pack , char[]
-charz  , zchar //
-metadata , match  i64_
-as asx { 0 :BodyLength , [
-""" ++ [28040; 24687]%N ++ runes_of_ascii """ ] :	options1 , ""x y"" :
-    matchKey ,""x y"": msg_type// " ++ [128512]%N ++ runes_of_ascii " emoji
-}, @calculatedFrom(
-""a\\"")match repeatCount as zchar { 007 :// a // b
-crc
-[
-""" ++ [233]%N ++ runes_of_ascii "t" ++ [233]%N ++ runes_of_ascii """
-    ,""" ++ [28040; 24687]%N ++ runes_of_ascii """ , ""it's"" ] : roots , } // a // b
-, char[ 3]falsey `say ""hi""` , @calculatedFrom( ""a	b"") calculatedFrom Header ,repeat
-    tag {stringy@calculatedFrom( ""\n""
-),
-match chars	as x_y_z { //	t
-42 :
-    repeatCount """ ++ [28040; 24687]%N ++ runes_of_ascii """	:pack
-, /// triple
-}
-    ,
-    char[ 3 ]x_y_z@lengthOf(//
-body
-) `two words` ,
-o { repeat zchar[ 00 ] matchKey
-    ,	repeat char[
-1 ]
-repeatCount  `it's` // " ++ [128512]%N ++ runes_of_ascii " emoji
-,} , } , }")).
-Eval vm_compute in ("<<<M206>>>" ++ check (runes_of_ascii "options{ }root // a // b
-packet
-    uint8x {  @tag( 3 ) @lengthOf(  falsey ) lengthOf @calculatedFrom(
-""`tick`"" ), A { i8 msg_type
-`crlf
-line` ,
-Foo @lengthOf( u8x
-) ,float ,
-    //
-    }
-, string // a // b
-lengthOf
-@calculatedFrom(	""abc"" )
-, @lengthOf(charz )
-    repeat string_	{// " ++ [128512]%N ++ runes_of_ascii " emoji
-zchar[
-    0
-    // a // b
-    ] T @calculatedFrom( ""a\\"" ) //	t
-, zchar[
-    42 ] repeatCount @lengthOf(
-Z9_ )`u8 x,`,}
-,  zchar[1
-    ]
-crc @calculatedFrom( // " ++ [27880; 37322]%N ++ runes_of_ascii "
-""// no comment"" )
-    `it's`
-    // `tick` ""quote"" 'q'
-    , @calculatedFrom(""{,}"")
-    tag
-int//
-, //x
-}
-MetaData f32a { // trailing space 
-i64 int // c
-,string int
-    , // c
-asx
-    //x
-    Pad
-    //x
-    `crlf
-line` , string lengthOf,
-    uint32
-pack ,// " ++ [27880; 37322]%N ++ runes_of_ascii "
-msg_type
-    u `it's` ,
-}")).
-Eval vm_compute in ("<<<M3773>>>" ++ check (runes_of_ascii "//x
-
-packet _x
-    {repeat
-	charz
-	{
-
-repeat
-asx,  //x
-  string metadata , //x
-		uint64
-a1	@calculatedFrom(
-""it's""
-    )
-`a\`
-,
-
-    } ,
-@rightPad //
-  ( )
-
-    msg_type
-len
-``,
-MetaDataX
-asx	// " ++ [128512]%N ++ runes_of_ascii " emoji
-  ,
-
-    @rightPad
-
-(
-
-'\x00'
-
-) zchar[3
-
-    ]int	, }
-	packet 
-Packet 
-{ @leftPad (
-    ) string_
-
-{
-	repeat
-
-calculatedFrom  // a // b
-	`it's`
-
-,
-
-    }
-    // " ++ [128512]%N ++ runes_of_ascii " emoji
-, @calculatedFrom( 
-""a	b""
-    )
-
-    @tag(
-	00 )
-	@rightPad 
-(
-	' ' 
-)
-u64
-stringy// " ++ [128512]%N ++ runes_of_ascii " emoji
-
-@calculatedFrom(""a	b"" // @lengthOf(
-      )
-, @leftPad
-    (
-    '\x00')	options1`" ++ [233]%N ++ runes_of_ascii "`
-,
-
-    @rightPad  (  )
-
-    repeat char[007
-]  Foo`line1
-line2` , } options	{	len
-= '\x00' ;
-	roots
-    = ""{,}""
-packetx =i64  ;
-	}")).
-Eval vm_compute in ("<<<M663>>>" ++ check (runes_of_ascii "
-root packet
-options1 {float@calculatedFrom(
-""a	b"" ) , @leftPad
-    // `tick` ""quote"" 'q'
-    ( ) match
-// @lengthOf(
-// `tick` ""quote"" 'q'
-lengthOf as  f32a{  ""1""	: f32a , ""{,}"" : falsey , // a // b
-} ,
-// a // b
-// packet A { u8 x, }
-} packet
-T{ @tag( 7) @lengthOf(
-f32a
-) @rightPad
-(
-) char[] msg_type @calculatedFrom( ""\" ++ [233]%N ++ runes_of_ascii """) `" ++ [28040; 24687; 31867; 22411]%N ++ runes_of_ascii "`,	options1 u128
-    //x
-    `// not a comment` ,
-    // packet A { u8 x, }
-    @rightPad (  ' '	) char[
-    1 ] metadata
-    // `tick` ""quote"" 'q'
-    @calculatedFrom(""" ++ [128512]%N ++ runes_of_ascii """ )`doc`
-    , } packet u8x{ roots
-@lengthOf(
-f32a
-) , @calculatedFrom( ""a\""b"") @tag( 00 )
-@leftPad ( '\x00'
-) MetaDataX { int @calculatedFrom( ""`tick`""
-) `
-` ,}// " ++ [27880; 37322]%N ++ runes_of_ascii "
-, }
-")).
-Eval vm_compute in ("<<<M150>>>" ++ check (runes_of_ascii "packet
-    Header	{	repeat string
-    Header
-,
-repeat options1  ,	zchar[
-    //	t
-    00 ] matchKey ,} options
-// @lengthOf(
-// `tick` ""quote"" 'q'
-{charz= ""\n"" ; // a // b
-BodyLength = ""x y"" u8x
-    = ""x y""
-    u // `tick` ""quote"" 'q'
-= 255 }
-MetaData u8x{
-// a // b
-// c
-Z9_
-i8i8 , float32  stringy , float msg_type // `tick` ""quote"" 'q'
-`doc`
-    ,
-calculatedFrom T , Foo T `a\` , }	root
-    packet
-    roots
-    {	@tag( 00
-) /// triple
-match// `tick` ""quote"" 'q'
-len
-    as roots {
-    // @lengthOf(
-    [ 4294967296 ]
-    : tag ""// no comment"" :float ,"""" : uint8x ,
-// " ++ [27880; 37322]%N ++ runes_of_ascii "
-// trailing space 
-007
-    // " ++ [27880; 37322]%N ++ runes_of_ascii "
-    :
-    options1 , } , }")).
-Eval vm_compute in ("<<<M312>>>" ++ check (runes_of_ascii "packet BodyLength // " ++ [27880; 37322]%N ++ runes_of_ascii "
-{ char[ 255 // " ++ [27880; 37322]%N ++ runes_of_ascii "
-]	_x, match body as repeatCount
-    { ""{,}"" :
-len }
-    , char[
-    0] Logon @calculatedFrom(	""{,}"" ) ,
-    // a // b
-    @rightPad() i64_//x
-@calculatedFrom( ""it's"" )
-    `crlf
-line` , } packet
-Header {
-match As as
-    chars
-{
-7: packetx , [ ""it's""  ]: u128
-,
-    [
-    4294967296 , ""{,}"" ] : f32a ,} ,
-    }packet asx { @calculatedFrom( ""1""
-)
-    a1
-// @lengthOf(
-//
-,
-//
-//x
-match x_y_z as  crc /// triple
-{
-// `tick` ""quote"" 'q'
-// `tick` ""quote"" 'q'
-""CRC32"" : As
-, 7
-:o , //x
-} ,match msg_type as Packet {""" ++ [233]%N ++ runes_of_ascii "t" ++ [233]%N ++ runes_of_ascii """ : metadata }, repeat u8
-i64_ ,// a // b
-}")).
-Eval vm_compute in ("<<<M3931>>>" ++ check (runes_of_ascii "options {
-}
-
-root packet a1 {
-    @tag(00)
-    Logon,
-    @calculatedFrom(""{,}"")
-    repeatCount {
-        repeat float i64_,
-        match u8x as leftPad {
-            3 : u128,
-            1 : i8i8,
-            42 : u128,
-            """ ++ [233]%N ++ runes_of_ascii "t" ++ [233]%N ++ runes_of_ascii """ : msg_type,
-            [1, 42] : A,
-        },
-        repeat i64 metadata,
-    },
-    match len as Z9_ {
-        255 : o,
-        0123456789 : Pad,
-        //
-        [7, ""{,}"", ""abc"", 007] : chars,
-        3 : packetx,
-        00 : o,
-        /// triple
-    },
-    zchar[0123456789] i64_ @lengthOf(chars),
-    float32 trueish `" ++ [28040; 24687; 31867; 22411]%N ++ runes_of_ascii "`,
-}")).
-Eval vm_compute in ("<<<M839>>>" ++ check (runes_of_ascii "options {
-uint8x =	true	;	calculatedFrom= '\x00'options1 = // @lengthOf(
-""`tick`"" ;
-    Header=false ; } root  packet MetaDataX {i16
-// c
-// `tick` ""quote"" 'q'
-A `" ++ [28040; 24687; 31867; 22411]%N ++ runes_of_ascii "`,T
-// trailing space 
-// trailing space 
-Logon,repeat// c
-char[ 65535 ] packetx
-`tab	here`,
-//
-//x
-@tag(
-65535
-    )
-char[
-007] u8x ,
-repeat u128 `a\`
-, @lengthOf( Pad)  @lengthOf( u8x )
-pack @lengthOf(
-    pack)
-,repeat zchar[
-0 ]chars
-,zchar[ 65535/// triple
-]
-T , } options { i8i8 =""CRC32""; metadata = '0'
-; // " ++ [128512]%N ++ runes_of_ascii " emoji
-lengthOf
-    =  '0' ;
-}
-MetaData float { uint8 int , }
-")).
-Eval vm_compute in ("<<<M4208>>>" ++ check (runes_of_ascii "packet len
-{@tag( 
-4294967296	)
-repeat f32 
-a1 `" ++ [28040; 24687; 31867; 22411]%N ++ runes_of_ascii "`
-	,  uint8x
-
-`
-` 
-
-    //
-//	t
-	,	}
-    root 
-packet rootA{  match  crc	as  // packet A { u8 x, }
-	  i8i8  // c
-  { ""a\""b""  :
-
-    _x
-00 :	Packet
-	,
-	""// no comment"": 
-MetaDataX  ,// c
-
-[""" ++ [28040; 24687]%N ++ runes_of_ascii """  //x
-  ,
-
-    007 ]:MetaDataX 42
-
-    :
-charz 
-, [ 
-""" ++ [233]%N ++ runes_of_ascii "t" ++ [233]%N ++ runes_of_ascii """
-	, 	 // a // b
-    ""abc""
-]
-
-    : _x  , } ,
-uint16
-    Logon
-,
-
-    @leftPad (  ' '
-	) 	 // packet A { u8 x, }
-  @leftPad 
-( // " ++ [27880; 37322]%N ++ runes_of_ascii "
-
-' '	)
-
-    uint8
-
-    stringy	@lengthOf(	msg_type
-)
-
-`
-`
-
-    , }
-
-")).
-Eval vm_compute in ("<<<M1181>>>" ++ check (runes_of_ascii "  packet  uint8x // a // b
-{
-    //x
-    } MetaData A
-    /// triple
-    {float32 options1 , roots
-    uint8x
-    , trueish asx , string options1 `" ++ [28040; 24687; 31867; 22411]%N ++ runes_of_ascii "`
-    , i32 int
-,
-    u// " ++ [128512]%N ++ runes_of_ascii " emoji
-As `doc` ,
-} packet Header {
-    char[]
-A
-, // a // b
-repeat metadata{match
-    /// triple
-    leftPad as Foo { ""a\""b"" : msg_type
-    // `tick` ""quote"" 'q'
-    }
-    , } , char[] trueish  ,
-matchKey  {
-char[ 4294967296//	t
-] roots	@calculatedFrom( ""x y"" ) , }, i8// " ++ [128512]%N ++ runes_of_ascii " emoji
-MetaDataX@calculatedFrom(  ""packet""
-), }
-")).
-Eval vm_compute in ("<<<M1052>>>" ++ check (runes_of_ascii "MetaData Logon {
-    }
-    packet trueish	{calculatedFrom@lengthOf(
-leftPad )
-    ,
-char[]chars @lengthOf(rootA) `u8 x,`
-,
-@calculatedFrom(""""
-// @lengthOf(
-// @lengthOf(
-)As @lengthOf( repeatCount) // " ++ [128512]%N ++ runes_of_ascii " emoji
-`two words`// c
-,
-asx
-`it's` // packet A { u8 x, }
-,// " ++ [27880; 37322]%N ++ runes_of_ascii "
-} packet
-MetaDataX	{repeat	u8  i8i8
-`" ++ [233]%N ++ runes_of_ascii "`
-, uint8 int @lengthOf( uint8x)  ,
-u16 T@lengthOf( body
-// packet A { u8 x, }
-/// triple
-) `" ++ [28040; 24687; 31867; 22411]%N ++ runes_of_ascii "` , zchar[ 3] trueish , @calculatedFrom( ""x y"" ) repeat zchar[ 00 ] zchar , }")).
-Eval vm_compute in ("<<<M143>>>" ++ check (runes_of_ascii "root packet crc {@calculatedFrom(
-""" ++ [128512]%N ++ runes_of_ascii """)
-BodyLength{x_y_z i8i8
-//
-//
-, int32 uint8x
-`two words` ,	rootA tag , zchar[
-7] matchKey
-    `" ++ [233]%N ++ runes_of_ascii "` ,} , T { x@calculatedFrom( ""a	b"" )
-`// not a comment` ,zchar[ // " ++ [128512]%N ++ runes_of_ascii " emoji
-42 ] /// triple
-A
-, match chars
-as
-    //x
-    len {""packet"" :crc 3//x
-:
-chars [
-0123456789 , ""packet"" ]
-    : pack	[""packet""
-,
-00// " ++ [27880; 37322]%N ++ runes_of_ascii "
-,
-    7 ,""" ++ [28040; 24687]%N ++ runes_of_ascii """, 3
-,  ""packet"",
-    42, 0123456789
-    ] :
-repeatCount	""{,}"" :
-chars
-    ,/// triple
-} ,
-} ,
-}")).
-Eval vm_compute in ("<<<M946>>>" ++ check (runes_of_ascii "MetaData	asx { u32
-asx
-    ,
-//
-// a // b
-roots Packet
-    // " ++ [128512]%N ++ runes_of_ascii " emoji
-    , }
-root packet
-pack{ // @lengthOf(
-len @calculatedFrom(""// no comment"" )
-    , match pack as leftPad { [007] // `tick` ""quote"" 'q'
-:	crc
-    //	t
-    ,10 :
-    tag
-    ,7 : packetx
-    ,
-""" ++ [28040; 24687]%N ++ runes_of_ascii """ : stringy ,
-65535
-:
-    i64_ ,1
-: MetaDataX ,
-}	, zchar[
-    /// triple
-    4294967296 ] chars @calculatedFrom(
-    //	t
-    ""\n""
-// `tick` ""quote"" 'q'
-// " ++ [27880; 37322]%N ++ runes_of_ascii "
-) ,
-    }
-")).
-Eval vm_compute in ("<<<M1233>>>" ++ check (runes_of_ascii "// " ++ [128512]%N ++ runes_of_ascii " emoji
-packet u8x {	char[] Z9_ , @leftPad
-    (
-'0'
-)
-    //x
-    u64 int@lengthOf(
-//x
-//	t
-A ) `crlf
-line`	,	repeat
-u8x
-`" ++ [28040; 24687; 31867; 22411]%N ++ runes_of_ascii "`, int64 leftPad @lengthOf(
-T), i8i8 i64_  , // " ++ [128512]%N ++ runes_of_ascii " emoji
-repeat msg_type ,@rightPad
-    // a // b
-    (	'\x00'  ) @lengthOf( zchar )
-matchKey ,
-    // packet A { u8 x, }
-    } MetaData u { } MetaData x_y_z {int16
-rootA,char[]
-o `it's`
-// packet A { u8 x, }
-// @lengthOf(
-, }
-options {}
-")).
-Eval vm_compute in ("<<<M3959>>>" ++ check (runes_of_ascii "packet f32a {
-    i64_ falsey,
-    match i8i8 as _x {
-        // " ++ [27880; 37322]%N ++ runes_of_ascii "
-        0 : Logon,
-        [65535, ""x y""] : Header,
-        4294967296 : Foo,
-        /// triple
-    },
-    @tag(0123456789)
-    u8x msg_type `say ""hi""`,
-}
-
-packet Z9_ {
-    repeatCount leftPad `two words`,
-}
-
-MetaData calculatedFrom {
-    u charz `{ , }`,
-    u64 T `tab	here`,
-    Foo options1 `" ++ [233]%N ++ runes_of_ascii "`,
-    char[] x `doc`,
-    i8i8 u8x,
-}")).
-Eval vm_compute in ("<<<M853>>>" ++ check (runes_of_ascii "
-root packet crc
-{	@rightPad
-    // `tick` ""quote"" 'q'
-    (
-// `tick` ""quote"" 'q'
-// c
-'\x00' )// a // b
-repeat i64 As ,
-// @lengthOf(
-// a // b
-}
-packet// c
-body // " ++ [128512]%N ++ runes_of_ascii " emoji
-{
-}
-packet  uint8x { options1 @calculatedFrom(""a	b"" ) ,
-} MetaData  Packet { }
-/// triple
-//
-MetaData
-    // a // b
-    falsey{	char[ 007 ]
-// trailing space 
-//x
-tag `it's` , As leftPad
-`line1
-line2`,
-    } 	 ")).
-Eval vm_compute in ("<<<M98>>>" ++ check (runes_of_ascii "packet// a // b
-stringy  {
-    Logon { match
-    string_ as
-    i64_
-{ ""x y"":
-string_
-    ,
-// " ++ [27880; 37322]%N ++ runes_of_ascii "
-// `tick` ""quote"" 'q'
-""`tick`"" : string_
-,  1// " ++ [27880; 37322]%N ++ runes_of_ascii "
-:
-/// triple
-// c
-float , [ ""1""
-    ] :
-options1
-    // " ++ [27880; 37322]%N ++ runes_of_ascii "
-    ,} , zchar[1 ] crc@calculatedFrom( """") `two words` , f32a , float32 lengthOf ,
-}
-, @tag(255) u8x @calculatedFrom( // packet A { u8 x, }
-""abc""
-) `a\` , }
-")).
-Eval vm_compute in ("<<<M495>>>" ++ check (runes_of_ascii "  packet pack { u8
-len/// triple
-,@rightPad(  ) u64 A@calculatedFrom( ""\n"" )
-, // trailing space 
-@lengthOf(
-    o )
-    @leftPad() @leftPad (
-)int32 metadata, matchKey ,
-} MetaData matchKey { }packet rootA {}options { A= zchar[65535]float = // `tick` ""quote"" 'q'
-3
-    roots //	t
-= 7 Pad
-    // trailing space 
-    =
-    10 ;trueish =false;}
-
-")).
-Eval vm_compute in ("<<<M4465>>>" ++ check (runes_of_ascii "
-root  packet
-
-    a1 {repeat string  x `// not a comment` , 
-  //x
-    	// @lengthOf(
-		}
-
-options
-
-    //
-    	//	t
-  {	stringy
-
-    = true } 
-packet
-msg_type	{  @rightPad (  '\x00' 
-	// " ++ [27880; 37322]%N ++ runes_of_ascii "
-  	) match
-
-crc
-
-    as packetx {65535
-    :
-
-body
-    ,
-	65535 : 
-T , }
-	,  //x
-	stringy ,
-    u32 
-roots
-    ,
-uint32
-body
-    ,
-	}
-
-")).
-Eval vm_compute in ("<<<M1252>>>" ++ check (runes_of_ascii "MetaData packetx	{
-    MetaDataX zchar , calculatedFrom i64_ ,char[] BodyLength , zchar[ 4294967296 // packet A { u8 x, }
-] MetaDataX``
-, int BodyLength `
-`, i64 i64_ , }
-options
-    { u8x= u32 ; } MetaData rootA{
-zchar[ 4294967296 ] roots
-`doc` ,
-char[ 0123456789 ]
-    // a // b
-    uint8x `" ++ [233]%N ++ runes_of_ascii "`
-    , Z9_ len	`u8 x,`	, }
-")).
-Eval vm_compute in ("<<<M1961>>>" ++ check (runes_of_ascii "MetaData
-    u { }  options {
-// c
-// @lengthOf(
-float = int8 ;rootA =false ; As =	int16 // `tick` ""quote"" 'q'
-repeatCount
-    // trailing space 
-    =
-    int16
-; u8x u8x =
-    //	t
-    '\x00' ; } options	{
-    repeatCount
-= 0
-u128
-    //
-    = false ; i64_
-// trailing space 
-// `tick` ""quote"" 'q'
-= '0' ; //	t
-}
-")).
-Eval vm_compute in ("<<<M1991>>>" ++ check (runes_of_ascii "MetaData
-    u { }  options {
-// c
-// @lengthOf(
-float = int8 ;rootA =false ; As =	int16 // `tick` ""quote"" 'q'
-repeatCount
-    // trailing space 
-    =
-    int16
-; u8x =
-    //	t
-    '\x00' ; } options	{ {
-    repeatCount
-= 0
-u128
-    //
-    = false ; i64_
-// trailing space 
-// `tick` ""quote"" 'q'
-= '0' ; //	t
-}
-")).
-Eval vm_compute in ("<<<M769>>>" ++ check (runes_of_ascii "
-packet i8i8 { match tag
-as  i8i8
-    { """ ++ [28040; 24687]%N ++ runes_of_ascii """ : pack ,
-3
-: rootA , [	1, //	t
-3
-]:falsey, }  ,
-// " ++ [128512]%N ++ runes_of_ascii " emoji
-// trailing space 
-zchar[
-10 ]string_ , // @lengthOf(
-}packet falsey{string chars ,
-uint8x
-,@lengthOf( packetx ) char[]
-Packet, }MetaData a1 {
-chars roots
-    //
-    `crlf
-line` , /// triple
-asx zchar ,}
-")).
-Eval vm_compute in ("<<<M1987>>>" ++ check (runes_of_ascii "MetaData
-    u { }  options {
-// c
-// @lengthOf(
-float = int8 ;rootA =false ; As =	int16 // `tick` ""quote"" 'q'
-repeatCount
-    // trailing space 
-    =
-    int16
-; u8x =
-    //	t
-    '\x00' ; } {	options
-    repeatCount
-= 0
-u128
-    //
-    = false ; i64_
-// trailing space 
-// `tick` ""quote"" 'q'
-= '0' ; //	t
-}
-")).
-Eval vm_compute in ("<<<M1980>>>" ++ check (runes_of_ascii "MetaData
-    u { }  options {
-// c
-// @lengthOf(
-float = int8 ;rootA =false ; As =	int16 // `tick` ""quote"" 'q'
-repeatCount
-    // trailing space 
-    =
-    int16
-; u8x =
-    //	t
-    '\x00' ;  options	{
-    repeatCount
-= 0
-u128
-    //
-    = false ; i64_
-// trailing space 
-// `tick` ""quote"" 'q'
-= '0' ; //	t
-}
-")).
-Eval vm_compute in ("<<<M1950>>>" ++ check (runes_of_ascii "MetaData
-    u { }  options {
-// c
-// @lengthOf(
-float = int8 ;rootA =false ; As =	int16 // `tick` ""quote"" 'q'
-repeatCount
-    // trailing space 
-    =
-    
-; u8x =
-    //	t
-    '\x00' ; } options	{
-    repeatCount
-= 0
-u128
-    //
-    = false ; i64_
-// trailing space 
-// `tick` ""quote"" 'q'
-= '0' ; //	t
-}
-")).
-Eval vm_compute in ("<<<M4290>>>" ++ check (runes_of_ascii "//	t
-packet crc {
-}
-
-MetaData len {
-    stringy body `line1
-    line2`,
-    u16 crc,//
-    zchar[007] Z9_,
-    Header T,
-}
-
-packet stringy {
-    @lengthOf(u8x)
-    match A as BodyLength {
-        ""{,}"" : o,
-        // " ++ [128512]%N ++ runes_of_ascii " emoji
-    },
-    repeat zchar[255] packetx,
-    A `" ++ [233]%N ++ runes_of_ascii "`,
-    BodyLength msg_type,
-}")).
-Eval vm_compute in ("<<<M188>>>" ++ check (runes_of_ascii "packet options1 {// " ++ [128512]%N ++ runes_of_ascii " emoji
-@calculatedFrom( ""abc""
-) //
-repeat BodyLength , a1
-@lengthOf(
-    // trailing space 
-    i8i8
-    // " ++ [128512]%N ++ runes_of_ascii " emoji
-    ) ,
-    } packet	asx
-    {char[ 0] o`crlf
-line`
-,char[] options1 `crlf
-line`
-,
-@tag( 42 )
-    repeat Foo  ,
-asx @calculatedFrom(
-    ""`tick`"") ,}")).
-Eval vm_compute in ("<<<M3209>>>" ++ check (runes_of_ascii "// top
-packet
-    // c0
-metadata
-    // c1
-{
-    // c2
-Logon
-    // c3
-{
-    // c4
-A
-    // c5
-`" ++ [28040; 24687; 31867; 22411]%N ++ runes_of_ascii "`
-    // c6
-,
-    // c7
-tag
-    // c8
-o
-    // c9
-,
-    // c10
-}
-    // c11
-,
-    // c12
-zchar
-    // c13
-len
-    // c14
-`// not a comment`
-    // c15
-,
-    // c16
-}
-    // c17
-")).
-Eval vm_compute in ("<<<M491>>>" ++ check (runes_of_ascii "root packet
-    options1 {
-    // a // b
-    zchar[
-    // `tick` ""quote"" 'q'
-    1 ] a1 `u8 x,` ,
-    }MetaData calculatedFrom {}
-    root  packet i64_	{@tag( 10 ) @leftPad	( // c
-' '
-// a // b
-// a // b
-) int32 Packet@calculatedFrom( // packet A { u8 x, }
-""1"")
-,}
-")).
-Eval vm_compute in ("<<<M1618>>>" ++ check (runes_of_ascii "packet
-//	t
-// trailing space 
-_x {
-// packet A { u8 x, }
-// c
-char[
-3
-    ] u8x @lengthOf(
-u8x ) , @calculatedFrom(""" ++ [128512]%N ++ runes_of_ascii """ // @lengthOf(
-)
-i16	Foo
-@lengthOf(	string_
-    )`doc`	, repeat	i64 metadata , @lengthOf( string_ string_
-) i8 // c
-u  `line1
-line2`	,
-}
-")).
-Eval vm_compute in ("<<<M577>>>" ++ check (runes_of_ascii "packet int {
-int64 msg_type @calculatedFrom(// trailing space 
-""\" ++ [233]%N ++ runes_of_ascii """ ),
-} options {
-packetx = false tag = // trailing space 
-true
-    u128= i32 ; msg_type= true
-pack = u32 ;
-    } options {
-    Packet
-= char[] ; } root packet roots{ zchar[ 42]
-float ,}
-")).
-Eval vm_compute in ("<<<M1495>>>" ++ check (runes_of_ascii "packet
-//	t
-// trailing space 
-i16 {
-// packet A { u8 x, }
-// c
-char[
-3
-    ] u8x @lengthOf(
-u8x ) , @calculatedFrom(""" ++ [128512]%N ++ runes_of_ascii """ // @lengthOf(
-)
-i16	Foo
-@lengthOf(	string_
-    )`doc`	, repeat	i64 metadata , @lengthOf( string_
-) i8 // c
-u  `line1
-line2`	,
-}
-")).
-Eval vm_compute in ("<<<M1554>>>" ++ check (runes_of_ascii "packet
-//	t
-// trailing space 
-_x {
-// packet A { u8 x, }
-// c
-char[
-3
-    ] u8x @lengthOf(
-u8x ) , @calculatedFrom(""" ++ [128512]%N ++ runes_of_ascii """ // @lengthOf(
-i16
-)	Foo
-@lengthOf(	string_
-    )`doc`	, repeat	i64 metadata , @lengthOf( string_
-) i8 // c
-u  `line1
-line2`	,
-}
-")).
-Eval vm_compute in ("<<<M1550>>>" ++ check (runes_of_ascii "packet
-//	t
-// trailing space 
-_x {
-// packet A { u8 x, }
-// c
-char[
-3
-    ] u8x @lengthOf(
-u8x ) , @calculatedFrom(as // @lengthOf(
-)
-i16	Foo
-@lengthOf(	string_
-    )`doc`	, repeat	i64 metadata , @lengthOf( string_
-) i8 // c
-u  `line1
-line2`	,
-}
-")).
-Eval vm_compute in ("<<<M1595>>>" ++ check (runes_of_ascii "packet
-//	t
-// trailing space 
-_x {
-// packet A { u8 x, }
-// c
-char[
-3
-    ] u8x @lengthOf(
-u8x ) , @calculatedFrom(""" ++ [128512]%N ++ runes_of_ascii """ // @lengthOf(
-)
-i16	Foo
-@lengthOf(	string_
-    )`doc`	, {	i64 metadata , @lengthOf( string_
-) i8 // c
-u  `line1
-line2`	,
-}
-")).
-Eval vm_compute in ("<<<M227>>>" ++ check (runes_of_ascii "
-root packet
-rootA { } root packet
-// a // b
-// trailing space 
-_x // " ++ [27880; 37322]%N ++ runes_of_ascii "
-{
-    i64_, // a // b
-} MetaData options1{ // `tick` ""quote"" 'q'
-a1 float `crlf
-line`
-,
-    u8x
-falsey // " ++ [128512]%N ++ runes_of_ascii " emoji
-`" ++ [233]%N ++ runes_of_ascii "`,
-f32a MetaDataX,int64 u8x, } packet f32a {}
-")).
-Eval vm_compute in ("<<<M3706>>>" ++ check (runes_of_ascii "options {
-    zchar = ' ';
-    MetaDataX = zchar[255];
-}
-
-options {
-    options1 = ""1"";
-}
-
-MetaData u128 {
-    char[] leftPad,
-}
-
-options {
-    a1 = 255;
 }
 
 packet As {
-    repeat char[007] A,
-    f32a @lengthOf(calculatedFrom),
-}")).
-Eval vm_compute in ("<<<M4367>>>" ++ check (runes_of_ascii "// c
-packet BodyLength {
-    u {
-        char[007] i8i8 `a\`,
-        pack {
-            match charz as Header {
-                ""\n"" : leftPad,
-            },
-        },
-        string u8x @calculatedFrom(""" ++ [233]%N ++ runes_of_ascii "t" ++ [233]%N ++ runes_of_ascii """),
+    @leftPad('\x00')
+    @tag(255)
+    @lengthOf(o)
+    zchar[42] string_ @calculatedFrom(""a\""b"") `" ++ [28040; 24687; 31867; 22411]%N ++ runes_of_ascii "`,
+    char[] repeatCount @lengthOf(calculatedFrom),
+    metadata @calculatedFrom(""abc"") `two words`,
+    // `tick` ""quote"" 'q'
+    // c
+    @lengthOf(matchKey)
+    match packetx as falsey {
+        007 : A,
+        ""1"" : packetx,
+        //
+        7 : charz,
+        [65535] : stringy,
+        65535 : a1,
+        [""a	b"", 1] : Logon,
+        // a // b
+        // " ++ [128512]%N ++ runes_of_ascii " emoji
     },
 }")).
-Eval vm_compute in ("<<<M4061>>>" ++ check (runes_of_ascii "options {
+Eval vm_compute in ("<<<M1544>>>" ++ check (runes_of_ascii "// top
+options // c0
+{ // c1a
+  // c1b
+StringPrefixLenType
+    // c2
+= // c3a
+  // c3b
+u8 // c4a
+  // c4b
+; ArrayPrefixLenType // c6
+= // c7
+u32 // c8
+;
+    // c9
+} packet Quote // c12
+{ // c13
+u32 // c14a
+  // c14b
+Ref , // c16a
+  // c16b
+InNote74 { // c18
+u8 pad0 // c20a
+  // c20b
+, // c21
+}
+    // c22
+, } packet
+    // c25
+Ack { repeat string
+    // c29
+OrderId // c30
+, // c31
+} // c32
+packet // c33a
+  // c33b
+Logout // c34
+{
+    // c35
+zchar[ // c36a
+  // c36b
+7
+    // c37
+]
+    // c38
+venue , // c40a
+  // c40b
+char[ // c41
+12 // c42
+] // c43a
+  // c43b
+Px ,
+    // c45
+string // c46
+count // c47a
+  // c47b
+,
+    // c48
+char[] // c49
+Tail // c50a
+  // c50b
+, // c51
+char[] Qty // c53
+, // c54
+Quote // c55
+, // c56
+} // c57
+root // c58a
+  // c58b
+packet Trade
+    // c60
+{ // c61a
+  // c61b
+zchar[
+    // c62
+2 // c63a
+  // c63b
+] // c64a
+  // c64b
+price // c65
+,
+    // c66
+u32
+    // c67
+x , u32 // c70
+lastPx
+    // c71
+@lengthOf( // c72
+Body // c73a
+  // c73b
+)
+    // c74
+, // c75a
+  // c75b
+match // c76a
+  // c76b
+x as
+    // c78
+Body // c79
+{ // c80
+148 : // c82
+Ack // c83a
+  // c83b
+, // c84
+171 // c85a
+  // c85b
+:
+    // c86
+Quote // c87
+, 15
+    // c89
+:
+    // c90
+Logout // c91a
+  // c91b
+,
+    // c92
+}
+    // c93
+, // c94
+}
+    // c95
+")).
+Eval vm_compute in ("<<<M1657>>>" ++ check (runes_of_ascii "
+
+  /// triple
+  MetaData
+	roots 
+{ 
+string
+
+Z9_
+    `say ""hi""` 
+    //
+	  , 
+o tag
+, 
+char[
+
+4294967296	// " ++ [128512]%N ++ runes_of_ascii " emoji
+  	] body
+	`crlf
+line` ,
+
+    _x
+
+lengthOf
+`tab	here`  ,	}
+options {
+repeatCount
+
+    =	""x y""
+
+;T =""" ++ [28040; 24687]%N ++ runes_of_ascii """}
+/// triple
+		packet  int
+{ @calculatedFrom(
+
+""CRC32"")
+
+    int64 f32a ,	roots
+	@calculatedFrom(
+	""it's""
+
+    ) `` , 
+@calculatedFrom( ""a\\""  ) @tag(  007
+)char[ 255	//	t
+    ] crc  @lengthOf(
+
+    packetx  )
+
+,
+
+    match Pad
+
+    as
+
+    string_{
+	[""\" ++ [233]%N ++ runes_of_ascii """	, 3
+// " ++ [27880; 37322]%N ++ runes_of_ascii "
+    	]:
+lengthOf
+,  [ 42 ] :
+
+// packet A { u8 x, }
+	  // packet A { u8 x, }
+  body ,	7
+
+    :
+	i8i8,
+	0123456789  :
+    options1 
+,//x
+[
+00]:  Z9_  ,  }// @lengthOf(
+    	,float, // " ++ [27880; 37322]%N ++ runes_of_ascii "
+		} MetaData zchar { 
+zchar[
+    3
+    ]options1`line1
+line2`,
+	}
+packet 
+asx{
+zchar[
+42// " ++ [128512]%N ++ runes_of_ascii " emoji
+    	]
+    falsey
+
+,
+
+    @calculatedFrom(
+
+""1""
+
+)
+repeat
+
+string 
+As`" ++ [233]%N ++ runes_of_ascii "`
+
+    ,char[]
+    trueish, 
+int32 
+Header
+
+    ,
+    repeat
+stringy
+`crlf
+line` ,
+	string
+
+x_y_z	,f64
+
+T 
+    //x
+// `tick` ""quote"" 'q'
+,
+uint8x
+@lengthOf(	charz	) 
+`a\`  , 
+}
+
+")).
+Eval vm_compute in ("<<<M1916>>>" ++ check (runes_of_ascii "
+
+  options { LittleEndian=false; 
+FixedStringPadFromLeft= false
+    ;	FixedStringPadChar= ' ' ;
+
+    } packet	Fill {	uint16
+
+    Qty
+
+    ,uint64
+
+clOrdID,
+
+repeat
+	i64 Flags
+    , 
+}	packet Ack{zchar[
+
+    7]
+
+    clOrdID ,
+	u64 
+lastPx
+,char[] Note ,
+
+repeat
+Fill
+	,
+
+    int32
+	count,	}
+
+    packet
+    Quote
+
+    {  u8
+	venue
+	,
+	InRef40 {	char[]
+    Qty , }
+, 
+zchar[
+	5 
+]	Flags
+, @rightPad 
+(
+	'\x00') char[
+12  ]  msgKind , 
+}  packet
+
+    Logout
+	{
+    InSym79 { int32
+Qty
+,
+
+    Fill ,char[
+3	] x,
+    repeat
+InNote29 {
+
+    i16
+price
+	,
+    Ack ,
+
+    f64  x,
+    zchar[	8
+
+] count
+
+,
+
+}
+    ,
+
+    } 
+,
+    }
+root
+    packet  Logon {	zchar[1 ]
+
+sym	, u32  count	,  u16  tag7 @lengthOf(
+
+    Body)
+
+,	match
+
+count  as Body 
+{ 
+[  122
+	, 152
+
+    ]
+
+    : 
+Ack,
+	118
+    : Logout, 61 :Quote,	161  :
+
+Fill ,}
+	,
+    u32 Acct
+
+    @calculatedFrom( ""CR\
+C32""	) ,}
+")).
+Eval vm_compute in ("<<<M343>>>" ++ check (runes_of_ascii "packet
+Pad{
+    } options { _x
+= false
+/// triple
+// trailing space 
+;} MetaData	repeatCount{char[ 10 ]  As `it's`
+, T metadata `say ""hi""` , u16
+matchKey ,  }packet u128{f32
+    As@calculatedFrom( ""packet"") `a\` , repeat
+// packet A { u8 x, }
+// " ++ [128512]%N ++ runes_of_ascii " emoji
+char[ 7 ]
+// packet A { u8 x, }
+// `tick` ""quote"" 'q'
+T `say ""hi""`,
+    @lengthOf(
+    // c
+    rootA )u64 //
+trueish `{ , }` , repeat char[
+3 ] MetaDataX ,
+    repeat float64  i64_ ,i16
+    charz
+    ,u8 trueish @lengthOf(
+    int
+    )`u8 x,`
+    ,
+    @leftPad ( '0' ) match
+Header
+as
+f32a { [  007
+]
+:
+i8i8
+, ""a	b""	://x
+As ,
+[ ""\n"" ]  :	zchar ,
+    007:
+a1 ,	0123456789 : falsey
+, } , repeat float64 stringy	`a\`, } packet
+    MetaDataX
+{ roots
+    // @lengthOf(
+    leftPad `a\`, }")).
+Eval vm_compute in ("<<<M1911>>>" ++ check (runes_of_ascii "options {
+    crc = uint8
+}
+
+packet len {
+    uint8x @calculatedFrom(""x y""),
+    @lengthOf(rootA)
+    @lengthOf(body)
+    @calculatedFrom(""x y"")
+    Packet @calculatedFrom(""\n"") `
+        `,
+    Packet,
+    repeat i8 Z9_,
+    @tag(255)
+    falsey `
+        `,
+    i64 int `line1
+        line2`,
+    @calculatedFrom(""\n"")
+    @leftPad()
+    @calculatedFrom(""abc"")
     // packet A { u8 x, }
-    rootA = true;
-    chars = true// packet A { u8 x, }
+    BodyLength,
+    uint8 u,
+    @calculatedFrom(""a\""b"")
+    @lengthOf(metadata)
+    @rightPad(' ')
+    // packet A { u8 x, }
+    char[10] f32a,
+}
+
+packet repeatCount {
 }
 
 options {
-    lengthOf = 3
-    trueish = ' ';
-    /// triple
-    crc = true;
-    rootA = ""it's"";
-    chars = int32;//x
+    string_ = i32;
+    o = ""a	b"";
+    i8i8 = ""a\""b"";
+    uint8x = uint16;
 }")).
-Eval vm_compute in ("<<<M388>>>" ++ check (runes_of_ascii "packet falsey
-    //
-    { @calculatedFrom( // @lengthOf(
-""`tick`"" )
-Pad
-/// triple
-// c
-{
-match
-pack as roots { """ ++ [233]%N ++ runes_of_ascii "t" ++ [233]%N ++ runes_of_ascii """ : u ,
-42: //
-As""packet"" : Logon,
-}
-    ,}
-    , } options
-{ } root
-    packet stringy { }")).
-Eval vm_compute in ("<<<M456>>>" ++ check (runes_of_ascii "MetaData Foo
-{
-zchar[ 10 ]
-i8i8 //	t
-,
-    zchar[	1 ]  zchar  ,  zchar lengthOf, string//
-metadata `tab	here` , matchKey  x// " ++ [128512]%N ++ runes_of_ascii " emoji
-, /// triple
-f32
+Eval vm_compute in ("<<<M336>>>" ++ check (runes_of_ascii "root
+packet  lengthOf { @lengthOf(
+    i64_ ) string repeatCount
+    @calculatedFrom( """ ++ [28040; 24687]%N ++ runes_of_ascii """
+)
+    `doc` ,repeat
+char[]	f32a `two words` //x
+, @lengthOf( //x
+i64_) char[]a1 ,//
+match float as	BodyLength	{
+"""" // " ++ [27880; 37322]%N ++ runes_of_ascii "
+:tag , """ ++ [28040; 24687]%N ++ runes_of_ascii """ : roots
+, ""// no comment""
+    :
+A ,
+} , metadata , repeat // `tick` ""quote"" 'q'
+char[
+0123456789 ]
+a1 `a\`, @leftPad (
+    '\x00'
+    )
+    zchar lengthOf ,
+    repeat
+    // a // b
+    char[] calculatedFrom
     // @lengthOf(
-    leftPad `it's` ,
-    // c
-    }")).
-Eval vm_compute in ("<<<M1729>>>" ++ check (runes_of_ascii "options { trueish = ""`tick`"" ; string_= """ ++ [233]%N ++ runes_of_ascii "t" ++ [233]%N ++ runes_of_ascii """
-    // c
-    } root
-    options body { stringy @calculatedFrom(
-""a	b"" ) `line1
-line2` , }
-packet Logon {
-    @leftPad(
-    ' ' ) //	t
-u16 string_ `u8 x,` ,
-}
+    , @rightPad( '\x00' ) @rightPad (
+    '\x00' // " ++ [27880; 37322]%N ++ runes_of_ascii "
+)
+    i8
+    BodyLength ,	}
+options{ } options { }
 ")).
-Eval vm_compute in ("<<<M1748>>>" ++ check (runes_of_ascii "options { trueish = ""`tick`"" ; string_= """ ++ [233]%N ++ runes_of_ascii "t" ++ [233]%N ++ runes_of_ascii """
-    // c
-    } root
-    packet body { stringy ""a	b""
-@calculatedFrom( ) `line1
-line2` , }
-packet Logon {
-    @leftPad(
-    ' ' ) //	t
-u16 string_ `u8 x,` ,
-}
-")).
-Eval vm_compute in ("<<<M1756>>>" ++ check (runes_of_ascii "options { trueish = ""`tick`"" ; string_= """ ++ [233]%N ++ runes_of_ascii "t" ++ [233]%N ++ runes_of_ascii """
-    // c
-    } root
-    packet body { stringy @calculatedFrom(
-""a	b""  `line1
-line2` , }
-packet Logon {
-    @leftPad(
-    ' ' ) //	t
-u16 string_ `u8 x,` ,
-}
-")).
-Eval vm_compute in ("<<<M193>>>" ++ check (runes_of_ascii "MetaData
-    Header { }MetaData Logon {// trailing space 
-int32 falsey ,// " ++ [27880; 37322]%N ++ runes_of_ascii "
-packetx
-_x ,
-char[] Logon`two words`
-,
-    matchKey packetx ,
-    u32 u // packet A { u8 x, }
-,	i64 float `it's`
-, }
-")).
-Eval vm_compute in ("<<<M919>>>" ++ check (runes_of_ascii "MetaData float
-{ // " ++ [27880; 37322]%N ++ runes_of_ascii "
-} root packet	Header {float  {
-i32 u8x @lengthOf( a1 )
-`u8 x,` , }
-, char[] i64_
-@calculatedFrom( ""a\\"" )
-`" ++ [233]%N ++ runes_of_ascii "`,
-    float64	packetx `{ , }`,
-    } // packet A { u8 x, }")).
-Eval vm_compute in ("<<<M138>>>" ++ check (runes_of_ascii "options
-{ MetaDataX=""\n""
-    /// triple
-    stringy = 4294967296 ; Packet=
-    false	; As = ""a\\"" /// triple
-; stringy = ' ';} options {
-}
-    MetaData roots {
-stringy MetaDataX
-    , }")).
-Eval vm_compute in ("<<<M591>>>" ++ check (runes_of_ascii "options { packetx =' '
-}root	packet i64_ {string // trailing space 
-Foo , @tag(// " ++ [27880; 37322]%N ++ runes_of_ascii "
-3	) u128 @calculatedFrom( ""\" ++ [233]%N ++ runes_of_ascii """ )	`
-` , repeat char[//
-00  ] Logon ,repeat crc lengthOf`a\` , }
-")).
-Eval vm_compute in ("<<<M1219>>>" ++ check (runes_of_ascii "
-packet u128{@leftPad //x
-( ' '
-    ) @tag( 3 ) @calculatedFrom(
-    /// triple
-    ""abc"" ) repeat A
-    ,  } packet
-x {
-u16 Z9_
-`u8 x,` // c
-, }packet	int { Logon	chars , }")).
-Eval vm_compute in ("<<<M156>>>" ++ check (runes_of_ascii "packet asx {
-    }
-    // packet A { u8 x, }
-    options
-    { options1
-= float64 leftPad
-=true ; MetaDataX =char[00] ; roots=false }// " ++ [128512]%N ++ runes_of_ascii " emoji
-packet string_{
-    }
-
-")).
-Eval vm_compute in ("<<<M3979>>>" ++ check (runes_of_ascii "
-
-  options	{
-	} root  packet	i8i8{ }
-    packet
-asx  { f64 pack
+Eval vm_compute in ("<<<M155>>>" ++ check (runes_of_ascii "packet T {
+    @lengthOf( MetaDataX )match
+    Packet as a1 { [ ""1""] : zchar ""{,}""
+    : _x ,} ,// @lengthOf(
+char[ 007 ]// a // b
+u128@lengthOf(
+zchar)
+// a // b
+// packet A { u8 x, }
+,string_ , @leftPad ( ' ')match MetaDataX as u128 { [ ""it's"" ,7 , 65535
+, 65535]	:  chars,""" ++ [28040; 24687]%N ++ runes_of_ascii """// c
+: u , 42 : zchar , }
+    , } options // `tick` ""quote"" 'q'
+{
+    matchKey =
+""a\""b""
+    }	MetaData
+    options1 { i16
+len , char[ 7
+] // packet A { u8 x, }
+crc ,u16 asx `say ""hi""` ,i64 zchar, } // " ++ [27880; 37322]%N)).
+Eval vm_compute in ("<<<M180>>>" ++ check (runes_of_ascii "  packet repeatCount {
+@rightPad (' ' )
+char[42]	Header @calculatedFrom( ""a\\"" )
     ,
-
-    @calculatedFrom(	""a\\""	) zchar[ 255 
-] rootA`it's`
-    // c
-      , 	 // " ++ [27880; 37322]%N ++ runes_of_ascii "
-} // " ++ [27880; 37322]%N ++ runes_of_ascii "
-")).
-Eval vm_compute in ("<<<M2152>>>" ++ check (runes_of_ascii "options{
-_x
-= true
-} options
-{ o	= /// triple
-false
-    ; chars
-= ""\n"" ""`tick`"" root packet	Pad
-/// triple
 // packet A { u8 x, }
-{	chars
-    // a // b
-    ,}")).
-Eval vm_compute in ("<<<M4322>>>" ++ check (runes_of_ascii "MetaData As {
+// packet A { u8 x, }
+@tag( 10 ) i64 options1@calculatedFrom( ""x y"" )
+,  Packet{ i64 lengthOf@calculatedFrom( ""abc""
+)
     // " ++ [128512]%N ++ runes_of_ascii " emoji
-    // @lengthOf(
-    a1 Pad,
-    zchar[00] body `// not a comment`,
-    crc uint8x `// not a comment`,
-    uint32 packetx ``,
-}")).
-Eval vm_compute in ("<<<M2343>>>" ++ check (runes_of_ascii "// c
-packet x { @lengthOf( metadata ) repeat lengthOf
-,a1{
-trueish	,// c
-repeat//	t
-MetaDataX , } , zchar[
-    42	] rootA // `tick` ""quote"" 'q'
-,
-    '}
-")).
-Eval vm_compute in ("<<<M2350>>>" ++ check (runes_of_ascii "// c
-packet x { metadata @lengthOf( ) repeat lengthOf
-,a1{
-trueish	,// c
-repeat//	t
-MetaDataX , } , zchar[
-    42	] rootA // `tick` ""quote"" 'q'
-,
-    }
-")).
-Eval vm_compute in ("<<<M2409>>>" ++ check (runes_of_ascii "// c
-packet x { @lengthOf( metadata ) repeat lengthOf
-,a1{
-trueish	,// c
-repeat//	t
-MetaDataX  } , zchar[
-    42	] rootA // `tick` ""quote"" 'q'
-,
-    }
-")).
-Eval vm_compute in ("<<<M2181>>>" ++ check (runes_of_ascii "options{
-_x
-= true
-} options
-{ o	= /// triple
-false
-    ; chars
-= ""\n"" } root packet	Pad
+    , repeat zchar[
+00 ] i64_`u8 x,`
+    , } ,
+    string tag , string
+    o `" ++ [233]%N ++ runes_of_ascii "`
 /// triple
-// packet A { u8 x, }
-{	chars
+// " ++ [128512]%N ++ runes_of_ascii " emoji
+, repeat char[  42] a1 `doc`,
+string leftPad @calculatedFrom(""a\\"" ), } 	 ")).
+Eval vm_compute in ("<<<M1626>>>" ++ check (runes_of_ascii "
+MetaData _x 
+{
+    As
+	f32a
+    `doc`// " ++ [128512]%N ++ runes_of_ascii " emoji
+  ,
+
+    }
+	packet	// @lengthOf(
+
+  x {
+	zchar[
+    255 ] 
+calculatedFrom
+
+    ,
+    string_
+    @calculatedFrom(""a	b""
+
+    )	,@calculatedFrom(""" ++ [128512]%N ++ runes_of_ascii """ )
+
+    @tag(
+4294967296)
+
+    @calculatedFrom( 
+""a	b""
+    ) char[
+
+    0
+] i64_  `" ++ [28040; 24687; 31867; 22411]%N ++ runes_of_ascii "`
+	, @leftPad
+    (  ' ' )
+repeat 
+
+    // c
+  // c
+    MetaDataX
+,	}
+
+")).
+Eval vm_compute in ("<<<M200>>>" ++ check (runes_of_ascii "options
+{ }	MetaData
+Foo {
+char[
+    0 ]  Logon `u8 x,` ,// packet A { u8 x, }
+zchar[ 255 ]
+    calculatedFrom `
+` ,
+    zchar[ 00 ]o
+    `u8 x,` ,char[255 ]
+Header `a\`// `tick` ""quote"" 'q'
+, // a // b
+Pad
+    Pad ,
+    } packet i8i8 {
+    u32
+    // " ++ [128512]%N ++ runes_of_ascii " emoji
+    float,// @lengthOf(
+As @calculatedFrom( ""// no comment"" ) , }")).
+Eval vm_compute in ("<<<M2126>>>" ++ check (runes_of_ascii "packet zchar {
+    @rightPad()
+    uint8 a1 `line1
+        line2`,
+    @calculatedFrom(""x y"")
+    match pack as matchKey {
+        /// triple
+        """ ++ [28040; 24687]%N ++ runes_of_ascii """ : u128,
+        3 : i64_,
+        ""a\""b"" : As,
+    },
+    // " ++ [27880; 37322]%N ++ runes_of_ascii "
+    // @lengthOf(
+    u8 Packet @calculatedFrom(""// no comment""),
+}
+//")).
+Eval vm_compute in ("<<<M531>>>" ++ check (runes_of_ascii "root packet tag { }  packet MetaDataX{char[007	float64
+// c
+/// triple
+asx  @calculatedFrom( ""a\""b""
+) `say ""hi""`// " ++ [27880; 37322]%N ++ runes_of_ascii "
+,  @tag(4294967296 )
+    char[1//x
+] packetx @calculatedFrom(""a\""b""
+    ) ,
+// " ++ [128512]%N ++ runes_of_ascii " emoji
+// a // b
+@calculatedFrom(""" ++ [233]%N ++ runes_of_ascii "t" ++ [233]%N ++ runes_of_ascii """  ) repeat pack // " ++ [27880; 37322]%N ++ runes_of_ascii "
+,
+    } // c")).
+Eval vm_compute in ("<<<M549>>>" ++ check (runes_of_ascii "root packet tag { }  packet MetaDataX{char[007	]
+// c
+/// triple
+asx  @calculatedFrom( ""a\""b""
+) ) `say ""hi""`// " ++ [27880; 37322]%N ++ runes_of_ascii "
+,  @tag(4294967296 )
+    char[1//x
+] packetx @calculatedFrom(""a\""b""
+    ) ,
+// " ++ [128512]%N ++ runes_of_ascii " emoji
+// a // b
+@calculatedFrom(""" ++ [233]%N ++ runes_of_ascii "t" ++ [233]%N ++ runes_of_ascii """  ) repeat pack // " ++ [27880; 37322]%N ++ runes_of_ascii "
+,
+    } // c")).
+Eval vm_compute in ("<<<M666>>>" ++ check (runes_of_ascii "root packet tag { }  packet MetaDataX{char[007	]
+// c
+/// triple
+asx  @calculatedFrom\( ""a\""b""
+) `say ""hi""`// " ++ [27880; 37322]%N ++ runes_of_ascii "
+,  @tag(4294967296 )
+    char[1//x
+] packetx @calculatedFrom(""a\""b""
+    ) ,
+// " ++ [128512]%N ++ runes_of_ascii " emoji
+// a // b
+@calculatedFrom(""" ++ [233]%N ++ runes_of_ascii "t" ++ [233]%N ++ runes_of_ascii """  ) repeat pack // " ++ [27880; 37322]%N ++ runes_of_ascii "
+,
+    } // c")).
+Eval vm_compute in ("<<<M620>>>" ++ check (runes_of_ascii "root packet tag { }  packet MetaDataX{char[007	]
+// c
+/// triple
+asx  @calculatedFrom( ""a\""b""
+) `say ""hi""`// " ++ [27880; 37322]%N ++ runes_of_ascii "
+,  @tag(4294967296 )
+    char[1//x
+] packetx @calculatedFrom(""a\""b""
+    ) ,
+// " ++ [128512]%N ++ runes_of_ascii " emoji
+// a // b
+""" ++ [233]%N ++ runes_of_ascii "t" ++ [233]%N ++ runes_of_ascii """@calculatedFrom(  ) repeat pack // " ++ [27880; 37322]%N ++ runes_of_ascii "
+,
+    } // c")).
+Eval vm_compute in ("<<<M482>>>" ++ check (runes_of_ascii "( packet tag { }  packet MetaDataX{char[007	]
+// c
+/// triple
+asx  @calculatedFrom( ""a\""b""
+) `say ""hi""`// " ++ [27880; 37322]%N ++ runes_of_ascii "
+,  @tag(4294967296 )
+    char[1//x
+] packetx @calculatedFrom(""a\""b""
+    ) ,
+// " ++ [128512]%N ++ runes_of_ascii " emoji
+// a // b
+@calculatedFrom(""" ++ [233]%N ++ runes_of_ascii "t" ++ [233]%N ++ runes_of_ascii """  ) repeat pack // " ++ [27880; 37322]%N ++ runes_of_ascii "
+,
+    } // c")).
+Eval vm_compute in ("<<<M621>>>" ++ check (runes_of_ascii "root packet tag { }  packet MetaDataX{char[007	]
+// c
+/// triple
+asx  @calculatedFrom( ""a\""b""
+) `say ""hi""`// " ++ [27880; 37322]%N ++ runes_of_ascii "
+,  @tag(4294967296 )
+    char[1//x
+] packetx @calculatedFrom(""a\""b""
+    ) ,
+// " ++ [128512]%N ++ runes_of_ascii " emoji
+// a // b
+packet""" ++ [233]%N ++ runes_of_ascii "t" ++ [233]%N ++ runes_of_ascii """  ) repeat pack // " ++ [27880; 37322]%N ++ runes_of_ascii "
+,
+    } // c")).
+Eval vm_compute in ("<<<M3>>>" ++ check (runes_of_ascii "
+options	{
+} MetaData pack {string T ,
+    msg_type
     // a // b
-    },")).
-Eval vm_compute in ("<<<M398>>>" ++ check (runes_of_ascii "root packet chars {
-@lengthOf( a1
+    stringy `" ++ [233]%N ++ runes_of_ascii "`
+, }
+    // " ++ [128512]%N ++ runes_of_ascii " emoji
+    packet a1 {
+// " ++ [128512]%N ++ runes_of_ascii " emoji
 // packet A { u8 x, }
-//	t
-) Z9_ msg_type `it's` , @lengthOf(	calculatedFrom ) //
-repeat calculatedFrom `{ , }`
-, }")).
-Eval vm_compute in ("<<<M2394>>>" ++ check (runes_of_ascii "// c
-packet x { @lengthOf( metadata )  lengthOf
-,a1{
-trueish	,// c
-repeat//	t
-MetaDataX , } , zchar[
-    42	] rootA // `tick` ""quote"" 'q'
-,
-    }
-")).
-Eval vm_compute in ("<<<M2371>>>" ++ check (runes_of_ascii "// c
-packet x { } metadata ) repeat lengthOf
-,a1{
-trueish	,// c
-repeat//	t
-MetaDataX , } , zchar[
-    42	] rootA // `tick` ""quote"" 'q'
-,
-    }
-")).
-Eval vm_compute in ("<<<M4075>>>" ++ check (runes_of_ascii "packet A {
-    match k as n {
-        [
-            ""a"", ""bb"", 007, ""d"", ""e"",
-            66, ""g"", ""h""
-        ] : B,
-        2 : C,
+repeat i32 x , i16 msg_type @calculatedFrom( ""it's""
+    )`two words` , } // " ++ [27880; 37322]%N)).
+Eval vm_compute in ("<<<M1985>>>" ++ check (runes_of_ascii "packet Logon {
+    string user,
+}
+
+root packet Frame {
+    u8 K,
+    match K as Body {
+        1 : Logon,
+        2 : Logout,
+    },
+    Tail,
+}
+
+packet Logout {
+    u16 reason,
+}
+
+packet Tail {
+    u32 crc,
+}")).
+Eval vm_compute in ("<<<M2105>>>" ++ check (runes_of_ascii "packet A {
+    Inner {
+        match k as n {
+            [
+                1, 22, 007, 4, 5,
+                66, 7, 8, 9, 10,
+                11, 12
+            ] : B,
+        },
     },
 }")).
-Eval vm_compute in ("<<<M3582>>>" ++ check (runes_of_ascii "
+Eval vm_compute in ("<<<M386>>>" ++ check (runes_of_ascii "packet packet
+    // `tick` ""quote"" 'q'
+    crc
+// packet A { u8 x, }
+//	t
+{
+u32 a1 ,
+    // trailing space 
+    roots
+charz //
+`two words`,	}
+    MetaData int {
+} /// triple")).
+Eval vm_compute in ("<<<M435>>>" ++ check (runes_of_ascii "packet
+    // `tick` ""quote"" 'q'
+    crc
+// packet A { u8 x, }
+//	t
+{
+u32 a1 ,
+    // trailing space 
+    roots
+charz //
+`two words`,	} }
+    MetaData int {
+} /// triple")).
+Eval vm_compute in ("<<<M396>>>" ++ check (runes_of_ascii "packet
+    // `tick` ""quote"" 'q'
+    crc
+// packet A { u8 x, }
+//	t
+u32
+{ a1 ,
+    // trailing space 
+    roots
+charz //
+`two words`,	}
+    MetaData int {
+} /// triple")).
+Eval vm_compute in ("<<<M429>>>" ++ check (runes_of_ascii "packet
+    // `tick` ""quote"" 'q'
+    crc
+// packet A { u8 x, }
+//	t
+{
+u32 a1 ,
+    // trailing space 
+    roots
+charz //
+`two words`	}
+    MetaData int {
+} /// triple")).
+Eval vm_compute in ("<<<M414>>>" ++ check (runes_of_ascii "packet
+    // `tick` ""quote"" 'q'
+    crc
+// packet A { u8 x, }
+//	t
+{
+u32 a1 ,
+    // trailing space 
+    
+charz //
+`two words`,	}
+    MetaData int {
+} /// triple")).
+Eval vm_compute in ("<<<M2117>>>" ++ check (runes_of_ascii "root packet Foo {
+    int32 tag `doc`,
+    char[0] u8x `u8 x,`,
+    charz charz,
+    @rightPad(' ')
+    @tag(3)
+    @rightPad('0')
+    repeat int16 float,
+}")).
+Eval vm_compute in ("<<<M130>>>" ++ check (runes_of_ascii "  packet x_y_z	{ @tag( // c
+00
+//x
+// packet A { u8 x, }
+)
+@tag(// " ++ [27880; 37322]%N ++ runes_of_ascii "
+7 ) @leftPad ( ) int16 _x @lengthOf( u ) `it's` // `tick` ""quote"" 'q'
+, }
+")).
+Eval vm_compute in ("<<<M1493>>>" ++ check (runes_of_ascii "
 
   packet A  {	u8
 
@@ -2470,329 +918,229 @@ A
     ,
 	}
 ")).
-Eval vm_compute in ("<<<M1770>>>" ++ check (runes_of_ascii "options { trueish = ""`tick`"" ; string_= """ ++ [233]%N ++ runes_of_ascii "t" ++ [233]%N ++ runes_of_ascii """
-    // c
-    } root
-    packet body { stringy @calculatedFrom(
-""a	b"" ) `line1
-line2`")).
-Eval vm_compute in ("<<<M2178>>>" ++ check (runes_of_ascii "options{
-_x
-= true
-} options
-{ o	= /// triple
-false
-    ; chars
-= ""\n"" } root packet	Pad
-/// triple
-// packet A { u8 x, }
-{")).
-Eval vm_compute in ("<<<M1435>>>" ++ check (runes_of_ascii "
-packet
-    falsey { Header@calculatedFrom(""packet""  ) zchar[ char[
-    0123456789 ] packetx
-    , } // `tick` ""quote"" 'q'")).
-Eval vm_compute in ("<<<M3327>>>" ++ check (runes_of_ascii "root packet matchKey { zchar[ 3 ] pack
-// c
-@calculatedFrom( ""a	b"" ) `doc` , } options { } MetaData A { int8 msg_type , }")).
-Eval vm_compute in ("<<<M3757>>>" ++ check (runes_of_ascii "packet A {
-    Inner {
-        u8 x `a
-        b`,
-        Deep {
-            u8 y `a
-            b`,
-        },
-    },
-}")).
-Eval vm_compute in ("<<<M1480>>>" ++ check (runes_of_ascii "
-packet
-    falsey { Header@calculatedFrom(""packet""  ) , char[
-    0123456789 ] pa<cketx
-    , } // `tick` ""quote"" 'q'")).
-Eval vm_compute in ("<<<M3022>>>" ++ check (runes_of_ascii "packet A {
-    Inner {
-        u8 x `a
-    b
-  c`,
-        Deep {
-            u8 y `a
-    b
-  c`,
-        },
-    },
-}")).
-Eval vm_compute in ("<<<M3743>>>" ++ check (runes_of_ascii "
-
-  packet
-
-A
-{
-match k  as n
-{
-
-    [
-1	,""bb""
-,
-007 ,
-	""d"" ,
-    5
-	, ""f""  , 7
-    ]
-    :
-
-B 
-, 2
-:C  }, } ")).
-Eval vm_compute in ("<<<M808>>>" ++ check (runes_of_ascii "MetaData string_{ Header
-    u128`tab	here` ,i64 Z9_
-// " ++ [27880; 37322]%N ++ runes_of_ascii "
-/// triple
-, x matchKey
-,string
-u, f64
-    Foo, }
-
-")).
-Eval vm_compute in ("<<<M1442>>>" ++ check (runes_of_ascii "
-packet
-    falsey { Header@calculatedFrom(""packet""  ) , char[
-     ] packetx
-    , } // `tick` ""quote"" 'q'")).
-Eval vm_compute in ("<<<M3703>>>" ++ check (runes_of_ascii "packet o{ repeat
-Logon
-uint8x
-	,	}
-	options
-
-    {  asx // c
-
-=zchar[ 3
-
-]
-
-    stringy
-='\x00' }
-")).
-Eval vm_compute in ("<<<M4056>>>" ++ check (runes_of_ascii "options {
-    Packet = 4294967296;
-    i64_ = ""1"";
-    Z9_ = ""abc"";
-    options1 = ""a\\"";
-    o = 0;
-}")).
-Eval vm_compute in ("<<<M4022>>>" ++ check (runes_of_ascii "MetaData 
-body {
-    i64
-
-    pack`it's`
-, 
-  // c
-    }packet
-
-stringy{ int16	calculatedFrom 
-,} ")).
-Eval vm_compute in ("<<<M2966>>>" ++ check (runes_of_ascii "packet A {
-  match k as n {
-    [1, ""bb"", 007, ""d"", 5, ""f"", 7, ""h"", 9, ""j""] : B,
-    2 : C
-  },
-}")).
-Eval vm_compute in ("<<<M2209>>>" ++ check (runes_of_ascii "options options
-{ } options { BodyLength= u16 Header= f64 ; u128 =
-    true
-    ; } // a // b")).
-Eval vm_compute in ("<<<M1365>>>" ++ check (runes_of_ascii "MetaData x_y_z {
-    // " ++ [128512]%N ++ runes_of_ascii " emoji
-    x
-    i8i8 `// not a comment` ,pack _x, //x
-i64_ len ,
-}")).
-Eval vm_compute in ("<<<M2242>>>" ++ check (runes_of_ascii "options
-{ } options { BodyLength= u16 u16 Header= f64 ; u128 =
-    true
-    ; } // a // b")).
-Eval vm_compute in ("<<<M3275>>>" ++ check (runes_of_ascii "MetaData float { float64 // c
-charz `
-` , } root packet chars { @rightPad ( '0' ) Foo , }")).
-Eval vm_compute in ("<<<M3486>>>" ++ check (runes_of_ascii "packet
-// c
-chars { } packet MetaDataX { @tag( 42 ) i16 string_ , repeat x `say ""hi""` , }")).
-Eval vm_compute in ("<<<M3518>>>" ++ check (runes_of_ascii "packet chars { } packet MetaDataX { @tag( 42 ) i16 string_ , repeat x `say ""hi""` ,
-// c
-}")).
-Eval vm_compute in ("<<<M2249>>>" ++ check (runes_of_ascii "options
-{ } options { BodyLength= u16 float32= f64 ; u128 =
-    true
-    ; } // a // b")).
-Eval vm_compute in ("<<<M2168>>>" ++ check (runes_of_ascii "options{
-_x
-= true
-} options
-{ o	= /// triple
-false
-    ; chars
-= ""\n"" } root packet")).
-Eval vm_compute in ("<<<M3226>>>" ++ check (runes_of_ascii "packet metadata { Logon { A `" ++ [28040; 24687; 31867; 22411]%N ++ runes_of_ascii "`
-// c
-, tag o , } , zchar len `// not a comment` , }")).
-Eval vm_compute in ("<<<M2236>>>" ++ check (runes_of_ascii "options
-{ } options { BodyLength u16 Header= f64 ; u128 =
-    true
-    ; } // a // b")).
-Eval vm_compute in ("<<<M3449>>>" ++ check (runes_of_ascii "packet o { repeat Logon uint8x , } options { asx // c
-= zchar[ 3 ] stringy = '\x00' }")).
-Eval vm_compute in ("<<<M4347>>>" ++ check (runes_of_ascii "packet pack {
-    repeat As {
-        char[65535] crc `crlf
-        line`,
-    },
-}")).
-Eval vm_compute in ("<<<M2936>>>" ++ check (runes_of_ascii "packet A {
-  match k as n {
-    [1, 22, 007, 4, 5, 66, 7, 8] : B,
-    2 : C
-  },
-}")).
-Eval vm_compute in ("<<<M3702>>>" ++ check (runes_of_ascii "  // trailing space 
-
-	MetaData
-
-body
-
-    {
-int32
-MetaDataX
-,
-    As x,
-    } ")).
-Eval vm_compute in ("<<<M3956>>>" ++ check (runes_of_ascii "root packet calculatedFrom {
-    uint8 pack @lengthOf(crc) `// not a comment`,
-}")).
-Eval vm_compute in ("<<<M4537>>>" ++ check (runes_of_ascii "// trailing space 
-packet Pad {
-    @lengthOf(asx)
-    repeat char[3] u128,
-}")).
-Eval vm_compute in ("<<<M4161>>>" ++ check (runes_of_ascii "// trailing space 
-packet Header {
-    // c
-    repeat char[] MetaDataX,
-}")).
-Eval vm_compute in ("<<<M4569>>>" ++ check (runes_of_ascii "packet  x
-{@rightPad
-	( ) repeat
-    roots
-	Logon
-	`doc` ,} 
-      // c")).
-Eval vm_compute in ("<<<M30>>>" ++ check (runes_of_ascii "MetaData
-T {crc /// triple
-u8x `say ""hi""` , } // `tick` ""quote"" 'q'")).
-Eval vm_compute in ("<<<M3182>>>" ++ check (runes_of_ascii "packet A {
+Eval vm_compute in ("<<<M1950>>>" ++ check (runes_of_ascii "packet A {
     match k as n {
-        1 : B,
-        // c
+        [
+            1, ""bb"", 007, ""d"", 5,
+            ""f""
+        ] : B,
+        2 : C,
     },
 }")).
-Eval vm_compute in ("<<<M1205>>>" ++ check (runes_of_ascii "MetaData stringy{ zchar[ 007 ] body /// triple
-`tab	here` , }
-")).
-Eval vm_compute in ("<<<M2747>>>" ++ check (runes_of_ascii "options int8 x_y_z i16 char[ char[] @calculatedFrom( packet =")).
-Eval vm_compute in ("<<<M4524>>>" ++ check (runes_of_ascii "  packet A{ B{ // a
-
-	u8
-	x, 	 // b
-
-} 	 // c
-	, 	 // d
+Eval vm_compute in ("<<<M1230>>>" ++ check (runes_of_ascii "root packet matchKey {
+// c
+zchar[ 3 ] pack @calculatedFrom( ""a	b"" ) `doc` , } options { } MetaData A { int8 msg_type , }")).
+Eval vm_compute in ("<<<M1262>>>" ++ check (runes_of_ascii "root packet matchKey { zchar[ 3 ] pack @calculatedFrom( ""a	b"" ) `doc` , } options { } MetaData A {
+// c
+int8 msg_type , }")).
+Eval vm_compute in ("<<<M1439>>>" ++ check (runes_of_ascii "// top
+root // c0a
+  // c0b
+packet P // c2a
+  // c2b
+{ // c3
+repeat // c4
+char cs , u8 x // c9a
+  // c9b
+, // c10
+} ")).
+Eval vm_compute in ("<<<M920>>>" ++ check (runes_of_ascii "packet A {
+    u16 len @lengthOf(body) `a
+b`,
+    u32 crc @calculatedFrom(""CRC32"") `a
+b`,
+    string body,
 }")).
-Eval vm_compute in ("<<<M3383>>>" ++ check (runes_of_ascii "packet x { @rightPad ( ) repeat roots Logon `doc` // c
-, }")).
-Eval vm_compute in ("<<<M4554>>>" ++ check (runes_of_ascii "
+Eval vm_compute in ("<<<M1890>>>" ++ check (runes_of_ascii "
 MetaData
-	u8x
+    _x {
 
-    { 
-msg_type matchKey
+    } 
+packet
 
-,
+calculatedFrom {
+}MetaData
+_x {
 
-    }
+    i32 
+body
+    , uint8 x , }
+
 ")).
-Eval vm_compute in ("<<<M583>>>" ++ check (runes_of_ascii "options {Packet =
-    255 ; f32a
-    = '0'
-T= '0' }")).
-Eval vm_compute in ("<<<M3527>>>" ++ check (runes_of_ascii "root packet P {
-    repeat char cs,
+Eval vm_compute in ("<<<M1641>>>" ++ check (runes_of_ascii "packet
+
+A	{ match  k 
+as
+n 
+{ [ ""a""  ,
+""bb"" ,  ""c c""
+,
+	""d""	,
+    ""e"" ]:
+
+    B  ,	2
+
+:  C } 
+,  }
+
+")).
+Eval vm_compute in ("<<<M1901>>>" ++ check (runes_of_ascii "packet o {
+    // c
+    repeat Logon uint8x,
+}
+
+options {
+    asx = zchar[3]
+    stringy = '\x00'
+}")).
+Eval vm_compute in ("<<<M1702>>>" ++ check (runes_of_ascii "packet
+A { match
+    k as	n
+{  [
+1 , 22
+, 
+""c c"",4 ,	5
+
+,  ""f""
+, 
+7
+    ] : B 2
+:
+	C} ,
+
+}
+")).
+Eval vm_compute in ("<<<M1617>>>" ++ check (runes_of_ascii "root packet P {
+    // c3
+    repeat string ss,
+    // c7
+    repeat u16 ns,// c11
+}
+// c12")).
+Eval vm_compute in ("<<<M1189>>>" ++ check (runes_of_ascii "MetaData float { float64 charz
+// c
+`
+` , } root packet chars { @rightPad ( '0' ) Foo , }")).
+Eval vm_compute in ("<<<M1400>>>" ++ check (runes_of_ascii "packet chars { // c
+} packet MetaDataX { @tag( 42 ) i16 string_ , repeat x `say ""hi""` , }")).
+Eval vm_compute in ("<<<M2016>>>" ++ check (runes_of_ascii "packet
+
+orderItem
+	{u8 a
+    ,
+} root
+	packet	newOrder 
+{ orderItem ,
+
+    u8 
+x
+	, }
+
+")).
+Eval vm_compute in ("<<<M1130>>>" ++ check (runes_of_ascii "packet metadata { Logon // c
+{ A `" ++ [28040; 24687; 31867; 22411]%N ++ runes_of_ascii "` , tag o , } , zchar len `// not a comment` , }")).
+Eval vm_compute in ("<<<M2041>>>" ++ check (runes_of_ascii "packet A {
+    match k as n {
+        [1, ""bb"", 007, ""d""] : B,
+        2 : C,
+    },
+}")).
+Eval vm_compute in ("<<<M1367>>>" ++ check (runes_of_ascii "packet o { repeat Logon uint8x , } options { asx = zchar[ 3
+// c
+] stringy = '\x00' }")).
+Eval vm_compute in ("<<<M1333>>>" ++ check (runes_of_ascii "MetaData body { i64 pack `it's` , } packet stringy { int16 calculatedFrom , } // c
+")).
+Eval vm_compute in ("<<<M1328>>>" ++ check (runes_of_ascii "MetaData body { i64 pack `it's` , } packet stringy { int16
+// c
+calculatedFrom , }")).
+Eval vm_compute in ("<<<M1447>>>" ++ check (runes_of_ascii "packet Inner {
+    u8 a,
+}
+root packet P {
+    repeat Inner items,
     u8 x,
 }
 ")).
-Eval vm_compute in ("<<<M4515>>>" ++ check (runes_of_ascii "
-packet A{
-u8 x  `d" ++ [6158]%N ++ runes_of_ascii "`
-
-    ,// c" ++ [6158]%N ++ runes_of_ascii "
-      } ")).
-Eval vm_compute in ("<<<M1426>>>" ++ check (runes_of_ascii "
-packet
-    falsey { Header@calculatedFrom(")).
-Eval vm_compute in ("<<<M3150>>>" ++ check (runes_of_ascii "packet A {
-    u8 x,    // c    u8 y,
+Eval vm_compute in ("<<<M799>>>" ++ check (runes_of_ascii "packet A {
+  match k as n {
+    [1, ""bb"", 007, ""d""] : B,
+    2 : C
+  },
 }")).
-Eval vm_compute in ("<<<M3869>>>" ++ check (runes_of_ascii "root packet A {
+Eval vm_compute in ("<<<M789>>>" ++ check (runes_of_ascii "packet A {
+  match k as n {
+    [""a"", 22, ""c c""] : B
+    2 : C
+  },
+}")).
+Eval vm_compute in ("<<<M1680>>>" ++ check (runes_of_ascii "
+root
+
+packet 
+u128
+    {
+chars  // c
+	`it's`
+    ,
+
+    }
+")).
+Eval vm_compute in ("<<<M949>>>" ++ check (runes_of_ascii "packet A {
+    B b `
+x`,
+    B `
+x`,
+    repeat B bs `
+x`,
+}")).
+Eval vm_compute in ("<<<M1288>>>" ++ check (runes_of_ascii "packet x { @rightPad ( ) repeat // c
+roots Logon `doc` , }")).
+Eval vm_compute in ("<<<M2061>>>" ++ check (runes_of_ascii "  MetaData
+M
+{
+
+u8 x`
+x`
+
+    ,
+	T	t `
+x`
+    ,
+}
+
+")).
+Eval vm_compute in ("<<<M1727>>>" ++ check (runes_of_ascii "MetaData int {
+    string f32a `two words`,
+}//")).
+Eval vm_compute in ("<<<M1757>>>" ++ check (runes_of_ascii "root packet u128 {
+    chars `it's`,// c
+}")).
+Eval vm_compute in ("<<<M1944>>>" ++ check (runes_of_ascii "  packet
+A
+{u8
+x 
+`d" ++ [8192]%N ++ runes_of_ascii "`  , 	 // c" ++ [8192]%N ++ runes_of_ascii "
+
+}
+")).
+Eval vm_compute in ("<<<M1661>>>" ++ check (runes_of_ascii "packet A {
     u8 x `
         x`,
 }")).
-Eval vm_compute in ("<<<M2358>>>" ++ check (runes_of_ascii "// c
-packet x { @lengthOf( metadata )")).
-Eval vm_compute in ("<<<M71>>>" ++ check (runes_of_ascii "// " ++ [27880; 37322]%N ++ runes_of_ascii "
-packet  matchKey{
-    }
+Eval vm_compute in ("<<<M1726>>>" ++ check (runes_of_ascii "options {
+    i64_ = ""`tick`""
+}")).
+Eval vm_compute in ("<<<M740>>>" ++ check (runes_of_ascii "z" ++ [65533]%N ++ runes_of_ascii "u" ++ [65533; 65533; 65533; 65533; 65533]%N ++ runes_of_ascii "}<i" ++ [65533]%N ++ runes_of_ascii "R" ++ [65533; 65533]%N ++ runes_of_ascii "P" ++ [65533]%N ++ runes_of_ascii "6" ++ [65533]%N ++ runes_of_ascii "NL" ++ [65533; 65533]%N ++ runes_of_ascii "(" ++ [65533; 65533; 28; 65533]%N)).
+Eval vm_compute in ("<<<M1170>>>" ++ check (runes_of_ascii "root packet pack
 // c
-")).
-Eval vm_compute in ("<<<M2618>>>" ++ check (runes_of_ascii "packet A { match k as n { 1 B }, }")).
-Eval vm_compute in ("<<<M1143>>>" ++ check (runes_of_ascii "
-options { options1= false
-    }")).
-Eval vm_compute in ("<<<M3698>>>" ++ check (runes_of_ascii "root packet P {
-    string s,
-}")).
-Eval vm_compute in ("<<<M3137>>>" ++ check (runes_of_ascii "packet A {
- u8 x `d" ++ [65279]%N ++ runes_of_ascii "`, // c" ++ [65279]%N ++ runes_of_ascii "
-}")).
-Eval vm_compute in ("<<<M4076>>>" ++ check (runes_of_ascii "packet body{// @lengthOf(
+{ }")).
+Eval vm_compute in ("<<<M1056>>>" ++ check (runes_of_ascii "packet A {
 }
-")).
-Eval vm_compute in ("<<<M2190>>>" ++ check (runes_of_ascii "options{
-_x
-= true
-} optio")).
-Eval vm_compute in ("<<<M3257>>>" ++ check (runes_of_ascii "root packet
-// c
-pack { }")).
-Eval vm_compute in ("<<<M1178>>>" ++ check (runes_of_ascii "root packet //
-i64_ { }")).
-Eval vm_compute in ("<<<M2576>>>" ++ check (runes_of_ascii "packet A { x `d` y, }")).
-Eval vm_compute in ("<<<M3998>>>" ++ check (runes_of_ascii "options {
-    // a
-}")).
-Eval vm_compute in ("<<<M3473>>>" ++ check (runes_of_ascii "MetaData
-// c
-o { }")).
-Eval vm_compute in ("<<<M3096>>>" ++ check (runes_of_ascii "// c" ++ [8232]%N ++ runes_of_ascii "
-packet A {
-}")).
-Eval vm_compute in ("<<<M2635>>>" ++ check (runes_of_ascii "packet A { } // c")).
-Eval vm_compute in ("<<<M2493>>>" ++ check (runes_of_ascii "@calculatedFrom(")).
-Eval vm_compute in ("<<<M4448>>>" ++ check (runes_of_ascii "MetaData T {
-}")).
-Eval vm_compute in ("<<<M436>>>" ++ check (runes_of_ascii " /// triple")).
-Eval vm_compute in ("<<<M2088>>>" ++ check (runes_of_ascii "options{")).
-Eval vm_compute in ("<<<M1496>>>" ++ check (runes_of_ascii "packet")).
-Eval vm_compute in ("<<<M2451>>>" ++ check (runes_of_ascii "false")).
-Eval vm_compute in ("<<<M524>>>" ++ check (runes_of_ascii " //x")).
-Eval vm_compute in ("<<<M2439>>>" ++ check (runes_of_ascii "u80")).
-Eval vm_compute in ("<<<M3733>>>" ++ check (runes_of_ascii "//x")).
-Eval vm_compute in ("<<<M2535>>>" ++ check (runes_of_ascii "_")).
+// c x")).
+Eval vm_compute in ("<<<M1016>>>" ++ check (runes_of_ascii "packet A {
+}
+// c" ++ [8239]%N)).
+Eval vm_compute in ("<<<M1019>>>" ++ check (runes_of_ascii "packet A {
+}// c" ++ [8287]%N)).
+Eval vm_compute in ("<<<M749>>>" ++ check (runes_of_ascii "C]LW::;w*;")).
+Eval vm_compute in ("<<<M1025>>>" ++ check (runes_of_ascii "// c" ++ [11]%N)).
